@@ -29,6 +29,7 @@ LEAN_RESERVED = {
     'using', 'calc', 'deriving', 'extends', 'private', 'protected', 'partial', 'mutual', 'macro',
     'syntax', 'notation', 'infix', 'infixl', 'infixr', 'prefix', 'postfix', 'set_option', 'attribute',
     's', 'k', 'kbreak', 'x', 'xs',      # names the generated code itself binds
+    'self', 'fuel', 'lfuel', 'kexc', 'default',  # (methods of a class / raising mode)
 }
 
 
@@ -46,9 +47,9 @@ class Unsupported(Exception):
 
 # ---------------------------------------------------------------------------------------- types
 # A type is a tuple: ('Int',) ('Bool',) ('Str',) ('Var', 'α') ('List', T|None) ('Option', T|None)
-# ('Prod', (T1, T2, ...)); None inside = not yet known.
+# ('Prod', (T1, T2, ...)) ('Dict', K, V) ('Unit',); None inside = not yet known.
 
-INT, BOOL, STR = ('Int',), ('Bool',), ('Str',)
+INT, BOOL, STR, UNIT = ('Int',), ('Bool',), ('Str',), ('Unit',)
 
 
 def parse_type(text: str):
@@ -92,9 +93,14 @@ def parse_type(text: str):
             return BOOL
         if t == 'Str':
             return STR
-        if t in ('List', 'Option'):
+        if t in ('List', 'Option', 'Set'):
             return (t, atom())
-        if t and t[0] in 'αβγδ':
+        if t == 'Dict':
+            kt = atom()
+            return ('Dict', kt, atom())
+        if t in ('None', 'Unit'):
+            return UNIT
+        if t and t[0] in 'αβγδκν':
             return ('Var', t)
         raise ValueError('bad type ' + text)
 
@@ -126,8 +132,14 @@ def show_type(t, top=True) -> str:
         r = t[1]
     elif k in ('List', 'Option'):
         r = '%s %s' % (k, show_type(t[1], False))
+    elif k == 'Set':
+        r = 'PyRt.Set %s' % show_type(t[1], False)
     elif k == 'Prod':
         r = ' × '.join(show_type(x, False) for x in t[1])
+    elif k == 'Dict':
+        r = 'PyRt.Dict %s %s' % (show_type(t[1], False), show_type(t[2], False))
+    elif k == 'Unit':
+        r = 'Unit'
     else:
         raise ValueError(t)
     if top or ' ' not in r:
@@ -143,10 +155,12 @@ def unify(a, b, node=None):
         return a
     if a == b:
         return a
-    if a[0] == b[0] and a[0] in ('List', 'Option'):
+    if a[0] == b[0] and a[0] in ('List', 'Option', 'Set'):
         return (a[0], unify(a[1], b[1], node))
     if a[0] == 'Prod' and b[0] == 'Prod' and len(a[1]) == len(b[1]):
         return ('Prod', tuple(unify(x, y, node) for x, y in zip(a[1], b[1])))
+    if a[0] == 'Dict' and b[0] == 'Dict':
+        return ('Dict', unify(a[1], b[1], node), unify(a[2], b[2], node))
     # T and Option T  (a value that may be None)
     if a[0] == 'Option' and b[0] != 'Option':
         return ('Option', unify(a[1], b, node))
@@ -158,14 +172,16 @@ def unify(a, b, node=None):
 def known(t) -> bool:
     if t is None:
         return False
-    if t[0] in ('List', 'Option'):
+    if t[0] in ('List', 'Option', 'Set'):
         return known(t[1])
     if t[0] == 'Prod':
         return all(known(x) for x in t[1])
+    if t[0] == 'Dict':
+        return known(t[1]) and known(t[2])
     return True
 
 
-def default_of(t) -> str:
+def default_of(t, inhabited=()) -> str:
     k = t[0]
     if k == 'Int':
         return '(0 : Int)'
@@ -176,19 +192,43 @@ def default_of(t) -> str:
     if k == 'Option':
         return '(none : %s)' % show_type(t)
     if k == 'Prod':
-        return '(' + ', '.join(default_of(x) for x in t[1]) + ')'
+        return '(' + ', '.join(default_of(x, inhabited) for x in t[1]) + ')'
+    if k == 'Dict':
+        return '([] : %s)' % show_type(t)
+    if k == 'Set':
+        return '(PyRt.Set.empty : %s)' % show_type(t)
+    if k == 'Unit':
+        return '()'
+    if k == 'Var' and t[1] in inhabited:
+        return '(default : %s)' % t[1]
     raise Unsupported('type', 'a local variable of abstract type %s has no initial value' % (t,))
 
 
-def has_deceq(t) -> bool:
+def has_deceq(t, deceq=()) -> bool:
     k = t[0]
-    if k in ('Int', 'Bool', 'Str'):
+    if k in ('Int', 'Bool', 'Str', 'Unit'):
         return True
     if k in ('List', 'Option'):
-        return t[1] is not None and has_deceq(t[1])
+        return t[1] is not None and has_deceq(t[1], deceq)
     if k == 'Prod':
-        return all(x is not None and has_deceq(x) for x in t[1])
+        return all(x is not None and has_deceq(x, deceq) for x in t[1])
+    if k == 'Dict':
+        return all(x is not None and has_deceq(x, deceq) for x in t[1:])
+    if k == 'Var':
+        return t[1] in deceq
     return False
+
+
+def lean_field(attr: str) -> str:
+    """record field of a class attribute: leading underscores dropped (`_count_map` -> `count_map`)"""
+    return mangle(attr.lstrip('_') or attr)
+
+
+def prod_proj(base: str, i: int, n: int) -> str:
+    """component `i` of an `n`-ary product (right-nested pairs)"""
+    if i == n - 1:
+        return base + '.2' * i
+    return base + '.2' * i + '.1'
 
 
 def mangle(name: str) -> str:
@@ -223,21 +263,171 @@ def paren(text: str) -> str:
     return '(' + text + ')'
 
 
+# ---------------------------------------------------------------------------------------- flow (None-narrowing)
+
+def narrow(test):
+    """(variables known not to be None when `test` is true, ... when it is false)"""
+    e = frozenset()
+    if isinstance(test, ast.Compare) and len(test.ops) == 1 and isinstance(test.left, ast.Name) \
+            and isinstance(test.comparators[0], ast.Constant) and test.comparators[0].value is None:
+        if isinstance(test.ops[0], ast.IsNot):
+            return frozenset([test.left.id]), e
+        if isinstance(test.ops[0], ast.Is):
+            return e, frozenset([test.left.id])
+    if isinstance(test, ast.UnaryOp) and isinstance(test.op, ast.Not):
+        t, f = narrow(test.operand)
+        return f, t
+    if isinstance(test, ast.BoolOp):
+        parts = [narrow(v) for v in test.values]
+        ts, fs = [p[0] for p in parts], [p[1] for p in parts]
+        if isinstance(test.op, ast.And):
+            return frozenset().union(*ts), frozenset.intersection(*fs)
+        return frozenset.intersection(*ts), frozenset().union(*fs)
+    return e, e
+
+
+def terminates(stmts) -> bool:
+    """control never falls out of the end of the statement list"""
+    if not stmts:
+        return False
+    last = stmts[-1]
+    if isinstance(last, (ast.Return, ast.Raise, ast.Break, ast.Continue)):
+        return True
+    if isinstance(last, ast.If):
+        return terminates(last.body) and terminates(last.orelse)
+    return False
+
+
+def assigned_names(stmts):
+    out = set()
+    for n in ast.walk(ast.Module(body=list(stmts), type_ignores=[])):
+        tg = []
+        if isinstance(n, ast.Assign):
+            tg = n.targets
+        elif isinstance(n, (ast.AugAssign, ast.For)):
+            tg = [n.target]
+        for t in tg:
+            for e in ast.walk(t):
+                if isinstance(e, ast.Name):
+                    out.add(e.id)
+    return frozenset(out)
+
+
+def flow_after_if(st: ast.If, nn):
+    t_, f_ = narrow(st.test)
+    after = set(nn)
+    if terminates(st.body):
+        after |= f_
+    if st.orelse and terminates(st.orelse):
+        after |= t_
+    return frozenset(after) - assigned_names([st])
+
+
+# ---------------------------------------------------------------------------------------- classes
+
+MUTATING_METHODS = {'append', 'pop', 'add', 'discard', 'remove', 'update', 'clear', 'setdefault', 'extend',
+                    'insert', 'popitem', 'sort', 'reverse', '__setitem__', '__delitem__'}
+EXC_NAMES = ('KeyError', 'ValueError', 'TypeError', 'IndexError', 'ZeroDivisionError', 'StopIteration',
+             'RecursionError')
+DUNDER_OF_SUBSCRIPT = '__getitem__'
+
+
+def self_rooted(node, self_name) -> bool:
+    """is the place expression rooted at an attribute of `self`: self.a, self.a[k], self.a[k][0] ..."""
+    while isinstance(node, (ast.Subscript, ast.Attribute)):
+        if isinstance(node, ast.Attribute) and isinstance(node.value, ast.Name) and node.value.id == self_name:
+            return True
+        node = node.value
+    return False
+
+
+def method_specs(cls, pyname):
+    return [sp for sp in cls.get('methods', []) if sp['py'] == pyname]
+
+
+def method_mutates(cls, fdef, tree, seen=()) -> bool:
+    """syntactic: does the method (or a translated method it calls on `self`) change the object state?"""
+    self_name = fdef.args.args[0].arg
+    for n in ast.walk(fdef):
+        targets = []
+        if isinstance(n, ast.Assign):
+            targets = n.targets
+        elif isinstance(n, (ast.AugAssign, ast.AnnAssign)):
+            targets = [n.target]
+        elif isinstance(n, ast.Delete):
+            targets = n.targets
+        for t in targets:
+            for e in (t.elts if isinstance(t, (ast.Tuple, ast.List)) else [t]):
+                if self_rooted(e, self_name):
+                    return True
+                if isinstance(e, ast.Subscript) and isinstance(e.value, ast.Name) and e.value.id == self_name:
+                    return True                                  # self[k] = v / del self[k]
+        if isinstance(n, ast.Call) and isinstance(n.func, ast.Attribute):
+            if self_rooted(n.func.value, self_name) and n.func.attr in MUTATING_METHODS:
+                return True
+            if isinstance(n.func.value, ast.Name) and n.func.value.id == 'dict' and n.func.attr in MUTATING_METHODS \
+                    and n.args and (self_rooted(n.args[0], self_name)
+                                    or (isinstance(n.args[0], ast.Name) and n.args[0].id == self_name)):
+                return True                                      # dict.__setitem__(self, ...) and the like
+            if isinstance(n.func.value, ast.Name) and n.func.value.id == self_name:
+                for sp in method_specs(cls, n.func.attr):
+                    if sp['lean_name'] in seen:
+                        continue
+                    callee = _find_function(tree, sp['qualname'])
+                    if method_mutates(cls, callee, tree, seen + (sp['lean_name'],)):
+                        return True
+    return False
+
+
 # ---------------------------------------------------------------------------------------- function translator
 
 class FnTranslator:
-    def __init__(self, fdef: ast.FunctionDef, spec: dict, module_defs: dict):
+    def __init__(self, fdef: ast.FunctionDef, spec: dict, module_defs: dict, tree=None, emitted=None):
         self.f = fdef
         self.spec = spec
         self.module_defs = module_defs          # name -> ast.FunctionDef of module-level functions
+        self.tree = tree                        # the module (methods calling methods)
+        self.emitted = emitted                  # lean names already translated in this module (None: unchecked)
         self.name = spec['lean_name']
         self.kind = spec['kind']                # 'function' | 'generator'
-        self.tparams = list(spec.get('tparams', []))
+        self.cls = spec.get('cls')              # class description of a method with object state, or None
+        self.raises = bool(spec.get('raises', False))      # raising mode: exceptions as values
+        self.fuel = bool(spec.get('fuel', False))          # (mutually) recursive method: explicit call depth
+        self.loop_fuel = bool(spec.get('loop_fuel', False))    # `while` loops: explicit iteration bound `lfuel`
+        self.hcount = 0                         # hoisted partial operations v1, v2 ...
+        self.cls_state = {}
+        self.cls_mut = False
+        if self.cls is not None:
+            self.cls_state = {a: parse_type(t) for a, t in self.cls['state'].items()}
+            fields = [lean_field(a) for a in self.cls_state]
+            if len(set(fields)) != len(fields):
+                raise Unsupported(fdef, 'class attributes collide after dropping underscores')
+            self.cls_mut = method_mutates(self.cls, fdef, tree)
+            if self.cls_mut and self.kind == 'generator':
+                raise Unsupported(fdef, 'a generator that changes the object state')
+        self.tparams = list(spec.get('tparams', (self.cls or {}).get('tparams', [])))
+        self.deceq = list(spec.get('deceq', (self.cls or {}).get('deceq', [])))
+        sentinels = list(spec.get('sentinels', (self.cls or {}).get('sentinels', [])))
+        if sentinels:
+            # module-level "argument omitted" markers (`_MISSING`) of a parameter declared `Option T`: read as None
+            import copy
+            self.f = fdef = copy.deepcopy(fdef)
+
+            class _S(ast.NodeTransformer):
+                def visit_Name(self, n):
+                    if n.id in sentinels and isinstance(n.ctx, ast.Load):
+                        return ast.copy_location(ast.Constant(value=None), n)
+                    return n
+            _S().visit(fdef)
+            for n in ast.walk(fdef):
+                if isinstance(n, ast.Name) and n.id in sentinels:
+                    raise Unsupported(n, 'assignment to a sentinel name')
         self.self_attrs = dict(spec.get('self_attrs', {}))      # attr -> type text
         self.self_len = spec.get('self_len', False)
         self.guard_names = list(spec.get('guards', []))
         self.result_t = parse_type(spec['result'])
         self.R = ('List', self.result_t) if self.kind == 'generator' else self.result_t
+        self.defaults = {}                      # python parameter -> default value (ast)
         self.counter = 0
         self.loops = []                         # loop defs by number (outer loops are numbered first)
         self.loop_texts = []                    # loop defs in emission order
@@ -259,7 +449,53 @@ class FnTranslator:
     def tbinder(self, implicit=True):
         if not self.tparams:
             return ''
-        return ('{%s : Type} ' if implicit else '(%s : Type) ') % ' '.join(self.tparams)
+        b = ('{%s : Type} ' if implicit else '(%s : Type) ') % ' '.join(self.tparams)
+        if implicit:        # key types: decidable equality, and a default for locals not yet bound
+            b += ''.join('[DecidableEq %s] [Inhabited %s] ' % (v, v) for v in self.deceq)
+        return b
+
+    @property
+    def cls_st(self):
+        """Lean type of the object state record"""
+        return self.cls['lean_name'] + '.St' + (''.join(' ' + p for p in self.cls.get('tparams', [])))
+
+    @property
+    def RT(self):
+        """Lean text of the type of a statement list: the value type, `Except PyExc` around it in raising
+        mode, paired with the new object state for a method that changes it"""
+        r = show_type(self.R)
+        if self.raises:
+            r = 'Except PyExc %s' % show_type(self.R, False)
+        if self.cls_mut:
+            r = '%s × %s' % ('(%s)' % r if ' × ' in r else r, self.cls_st)
+        return r
+
+    @staticmethod
+    def _atom(e):
+        return e if (' ' not in e and '\n' not in e) else '(%s)' % e
+
+    def ret(self, e):
+        """the statement-list value `return e` (e: Lean term of the value type, free variable `s`)"""
+        if self.raises:
+            e = '.ok %s' % self._atom(e)
+        return '(%s, s.self)' % e if self.cls_mut else e
+
+    def throw(self, exc):
+        e = '.error %s' % exc
+        return '(%s, s.self)' % e if self.cls_mut else e
+
+    def _raise(self, exc, ctx):
+        """the statement-list value of raising `exc` here: the innermost handler, else the error result"""
+        if ctx.get('kexc'):
+            return '%s %s s' % (ctx['kexc'], exc)
+        return self.throw(exc)
+
+    def _wrap(self, ex, text, ctx):
+        """bind the partial operations hoisted out of one statement's expressions, in evaluation order"""
+        for v, term in reversed(ex.hoists or []):
+            text = '(match %s with\n| .error e => %s\n| .ok %s =>\n%s)' % (
+                term, self._raise('e', ctx), v, indent(text))
+        return text
 
     def fresh(self, base):
         self.counter += 1
@@ -268,8 +504,10 @@ class FnTranslator:
     # -- parameters ----------------------------------------------------------------------
     def _collect_params(self):
         a = self.f.args
-        if a.vararg or a.kwarg or a.kwonlyargs or a.posonlyargs:
+        if a.vararg or a.kwonlyargs or a.posonlyargs or (a.kwarg and 'kwargs' not in self.spec):
             raise Unsupported(self.f, 'only plain positional parameters')
+        if 'kwargs' in self.spec and not a.kwarg:
+            raise Unsupported(self.f, 'the spec declares **%s' % list(self.spec['kwargs'])[0])
         names = [x.arg for x in a.args]
         ptypes = self.spec['params']
         if self.spec.get('method'):
@@ -277,10 +515,21 @@ class FnTranslator:
             names = names[1:]
         if list(ptypes) != names:
             raise Unsupported(self.f, 'parameter list %s differs from the spec %s' % (names, list(ptypes)))
+        self.defaults = dict(zip(names[len(names) - len(a.defaults):], a.defaults)) if a.defaults else {}
+        if self.cls is not None:
+            self.params.append(('self', ('Obj',)))
         for n in names:
             t = parse_type(ptypes[n])
             self.vars[n] = t
             self.params.append((mangle(n), t))
+        if a.kwarg:         # **kwargs: a dict parameter of the declared type (keyword names are its keys)
+            (kn, kt), = self.spec['kwargs'].items()
+            if kn != a.kwarg.arg:
+                raise Unsupported(self.f, '**%s differs from the spec **%s' % (a.kwarg.arg, kn))
+            self.vars[kn] = parse_type(kt)
+            if self.vars[kn][0] != 'Dict':
+                raise Unsupported(self.f, '**%s must be a Dict' % kn)
+            self.params.append((mangle(kn), self.vars[kn]))
         if self.self_len:
             self.vars['self.__len__'] = INT
             self.params.append(('self_len', INT))
@@ -298,10 +547,17 @@ class FnTranslator:
             return 'self_len'
         if pyname.startswith('self.'):
             return 'self_' + pyname[5:]
-        if pyname in self.spec['params']:
+        if pyname in self.spec['params'] or pyname in self.spec.get('kwargs', ()):
             return mangle(pyname)
-        locs = [n for n in self.vars if n not in self.spec['params'] and not n.startswith('self.')]
+        locs = [n for n in self.vars if n not in self.spec['params'] and not n.startswith('self.')
+                and n not in self.spec.get('kwargs', ())]
         return 'loc%d' % (locs.index(pyname) + 1)
+
+    def ptype(self, t):
+        return self.cls_st if t == ('Obj',) else show_type(t)
+
+    def default_of(self, t):
+        return default_of(t, self.deceq)
 
     # -- guard calls -> precondition --------------------------------------------------------
     def _strip_guards(self):
@@ -455,47 +711,130 @@ class FnTranslator:
         else:
             raise Unsupported(tgt, 'assignment target')
 
-    def _type_of(self, node):
+    def _type_of(self, node, nn=frozenset()):
         try:
-            return ExprTr(self, infer_only=True).expr(node)[1]
+            return ExprTr(self, infer_only=True, nn=nn).expr(node)[1]
         except _Unknown:
             return None
 
-    def _infer_block(self, stmts):
+    def _is_place(self, tgt):
+        """an attribute of `self` / an item of one: assignable, nothing to infer"""
+        return self.cls is not None and (self_rooted(tgt, self.self_name) or self.dict_view(
+            tgt.value if isinstance(tgt, ast.Subscript) else None) is not None)
+
+    def cls_defines(self, name) -> bool:
+        """does the class body define (override) method `name`?"""
+        cdef = None
+        for n in self.tree.body:
+            if isinstance(n, ast.ClassDef) and n.name == self.cls['name']:
+                cdef = n
+        if cdef is None:
+            raise Unsupported(self.f, 'class %s not found' % self.cls['name'])
+        return any(isinstance(n, ast.FunctionDef) and n.name == name for n in cdef.body) or any(
+            isinstance(n, ast.Assign) and any(isinstance(t, ast.Name) and t.id == name for t in n.targets)
+            for n in cdef.body)
+
+    def dict_view(self, node):
+        """`self` of a dict subclass (spec `dict_base`) / `self.<peer>`: the state attribute holding the dict
+        that the object IS, and whether it is the peer object; else None"""
+        if self.cls is None or node is None:
+            return None
+        if isinstance(node, ast.Name) and node.id == self.self_name and self.cls.get('dict_base'):
+            return self.cls['dict_base'], False
+        peer = self.cls.get('peer')
+        if peer and isinstance(node, ast.Attribute) and isinstance(node.value, ast.Name) \
+                and node.value.id == self.self_name and node.attr == peer['attr']:
+            return peer['swap'][self.cls['dict_base']], True
+        return None
+
+    def view_term(self, attr):
+        return 's.self.%s' % lean_field(attr)
+
+    def state_attr(self, node):
+        """`self.a` / `self.p.q` (a dotted path the spec maps to a state field, `paths`) -> the state attribute, or
+        None"""
+        if self.cls is None or not isinstance(node, ast.Attribute):
+            return None
+        parts = []
+        n = node
+        while isinstance(n, ast.Attribute):
+            parts.append(n.attr)
+            n = n.value
+        if not (isinstance(n, ast.Name) and n.id == self.self_name):
+            return None
+        path = '.'.join(reversed(parts))
+        if len(parts) == 1:
+            return path if path in self.cls_state and path not in self.cls.get('virtual', ()) else None
+        return self.cls.get('paths', {}).get(path)
+
+    def _infer_block(self, stmts, nn=frozenset()):
         for st in stmts:
             if isinstance(st, ast.Assign):
-                t = self._type_of(st.value)
+                t = self._type_of(st.value, nn)
                 for tgt in st.targets:
-                    self._infer_target(tgt, t, st)
+                    if not self._is_place(tgt):
+                        self._infer_target(tgt, t, st)
+                nn = nn - assigned_names([st])
             elif isinstance(st, ast.AugAssign):
+                if self._is_place(st.target):
+                    continue
                 if not isinstance(st.target, ast.Name):
                     raise Unsupported(st, 'augmented assignment target')
-                t = self._type_of(ast.BinOp(left=st.target, op=st.op, right=st.value))
+                t = self._type_of(ast.BinOp(left=st.target, op=st.op, right=st.value), nn)
                 self._bind(st.target.id, t, st)
+                nn = nn - {st.target.id}
             elif isinstance(st, ast.AnnAssign):
                 raise Unsupported(st)
             elif isinstance(st, ast.For):
-                it = self._iter_type(st.iter)
+                inner = nn - assigned_names([st])
+                it = self._iter_type(st.iter, nn)
                 self._infer_target(st.target, it, st)
-                self._infer_block(st.body)
-                self._infer_block(st.orelse)
+                self._infer_block(st.body, inner)
+                self._infer_block(st.orelse, inner)
+                nn = inner
             elif isinstance(st, ast.If):
-                self._infer_block(st.body)
-                self._infer_block(st.orelse)
+                try:
+                    static = ExprTr(self, infer_only=True, nn=nn).static_test(st.test)
+                except _Unknown:
+                    static = None
+                if static is not None:
+                    self._infer_block(st.body if static else st.orelse, nn)
+                    nn = nn - assigned_names([st])
+                    continue
+                t_, f_ = narrow(st.test)
+                self._infer_block(st.body, nn | t_)
+                self._infer_block(st.orelse, nn | f_)
+                nn = flow_after_if(st, nn)
+            elif isinstance(st, ast.While):
+                inner = nn - assigned_names([st])
+                self._infer_block(st.body, inner | narrow(st.test)[0])
+                self._infer_block(st.orelse, inner)
+                nn = inner
+            elif isinstance(st, ast.Try):
+                inner = nn - assigned_names([st])
+                self._infer_block(st.body, inner)
+                for h in st.handlers:
+                    self._infer_block(h.body, inner)
+                self._infer_block(st.orelse, inner)
+                nn = inner
             elif isinstance(st, ast.Expr) and isinstance(st.value, ast.Call):
                 m = self._mutation(st.value)
-                if m is not None:
+                if m is not None and m[0] != self.self_name:
                     var, op, arg = m
                     if op == 'append':
-                        self._bind(var, ('List', self._type_of(arg)), st)
+                        self._bind(var, ('List', self._type_of(arg, nn)), st)
+                    elif op == 'extend':
+                        self._bind(var, self._type_of(arg, nn), st)
 
-    def _iter_type(self, node):
+    def _iter_type(self, node, nn=frozenset()):
         if isinstance(node, ast.Call) and isinstance(node.func, ast.Name) and node.func.id == 'range':
             return INT
-        t = self._type_of(node)
+        t = self._type_of(node, nn)
         if t is None:
             return None
         if t[0] == 'List':
+            return t[1]
+        if t[0] == 'Dict':                      # iterating a dict: its keys, in insertion order
             return t[1]
         if t[0] == 'Str':
             raise Unsupported(node, 'iteration over a string')
@@ -504,8 +843,12 @@ class FnTranslator:
     def _mutation(self, call: ast.Call):
         """`v.append(e)` / `v.pop()` on a local list variable -> (v, op, arg)"""
         if isinstance(call.func, ast.Attribute) and isinstance(call.func.value, ast.Name) \
-                and call.func.attr in ('append', 'pop') and not call.keywords:
+                and call.func.attr in ('append', 'pop', 'extend') and not call.keywords:
             v = call.func.value.id
+            if call.func.attr == 'extend':
+                if len(call.args) == 1 and self.cls is not None and v in self.vars:
+                    return v, 'extend', call.args[0]
+                return None
             if call.func.attr == 'append' and len(call.args) == 1:
                 return v, 'append', call.args[0]
             if call.func.attr == 'pop' and not call.args:
@@ -529,7 +872,10 @@ class FnTranslator:
         for n in ast.walk(ast.Module(body=self.body, type_ignores=[])):
             if isinstance(n, ast.Assign):
                 for tgt in n.targets:
-                    if isinstance(tgt, ast.Name) and tgt.id in mutated and not isinstance(n.value, ast.List):
+                    fresh_copy = ((self.cls is not None or self.raises) and isinstance(n.value, ast.Call)
+                                  and isinstance(n.value.func, ast.Name) and n.value.func.id == 'list')
+                    if isinstance(tgt, ast.Name) and tgt.id in mutated and not isinstance(n.value, ast.List) \
+                            and not fresh_copy:
                         raise Unsupported(n, 'mutated list %s assigned from a non-fresh value' % tgt.id)
                 if isinstance(n.value, ast.Name) and n.value.id in mutated:
                     raise Unsupported(n, 'alias of mutated list %s' % n.value.id)
@@ -555,12 +901,15 @@ class FnTranslator:
                     raise Unsupported(n, 'loop body mutates the list being iterated')
 
     # -- statements (CPS) ------------------------------------------------------------------------
+    def _ex(self, ctx):
+        return ExprTr(self, nn=ctx.get('nn', frozenset()), hoists=[] if self.raises else None)
+
     def block(self, stmts, k, ctx):
         """Lean term (free variable `s`) for the statement list followed by continuation term `k`"""
         if not stmts:
             return k
         st, rest = stmts[0], stmts[1:]
-        ex = ExprTr(self)
+        ex = self._ex(ctx)
         if isinstance(st, ast.Pass):
             return self.block(rest, k, ctx)
         if isinstance(st, ast.Expr) and isinstance(st.value, ast.Constant):
@@ -569,17 +918,68 @@ class FnTranslator:
             upd = []
             if len(st.targets) != 1:
                 raise Unsupported(st, 'chained assignment')
+            callee = self._method_call(st.value, ctx)
+            if callee is not None and callee['mutates']:
+                return self._call_stmt(callee, st.value, st.targets[0], rest, k, ctx, ex)
+            tgt0 = st.targets[0]
+            dv = self.dict_view(tgt0.value) if isinstance(tgt0, ast.Subscript) else None
+            if dv is not None:
+                return self._view_store(dv, tgt0, st.value, st, rest, k, ctx, ex)
+            raw = self._raw_dict(st.value)
+            if raw is not None:
+                val, vt, upd = self._raw_dict_value(raw, st.value, ex)
+                if val is None:
+                    raise Unsupported(st, 'dict.%s returns nothing' % raw[0])
+                self._bind_value(tgt0, val, vt, upd, st)
+                ctx2 = self._forget(ctx, [st])
+                return self._wrap(ex, self._let_update(upd) + '\n' + self.block(rest, k, ctx2), ctx)
             self._assign(st.targets[0], st.value, upd, ex, st)
-            return self._let_update(upd) + '\n' + self.block(rest, k, ctx)
+            ctx2 = self._forget(ctx, [st])
+            return self._wrap(ex, self._let_update(upd) + '\n' + self.block(rest, k, ctx2), ctx)
         if isinstance(st, ast.AugAssign):
+            if self._is_place(st.target):
+                read, t, write = self._place(st.target, ex)
+                cur = read()
+                if t != INT:
+                    raise Unsupported(st, 'augmented assignment to a non-integer')
+                r, _ = ex.expr(st.value, INT)
+                e, _ = ex.arith(st.op, cur, r, st)
+                return self._wrap(ex, self._let_update([write(e)]) + '\n' + self.block(rest, k, ctx), ctx)
             if not isinstance(st.target, ast.Name) or self.vars.get(st.target.id) != INT:
                 raise Unsupported(st, 'augmented assignment to a non-integer (in-place list update)')
             val = ast.BinOp(left=ast.Name(id=st.target.id, ctx=ast.Load()), op=st.op, right=st.value)
             ast.copy_location(val, st)
             ast.fix_missing_locations(val)
             e, t = ex.expr(val, self.vars[st.target.id])
-            return self._let_update([(st.target.id, e)]) + '\n' + self.block(rest, k, ctx)
-        if isinstance(st, ast.Expr) and isinstance(st.value, ast.Call) and self._mutation(st.value) is not None:
+            return self._wrap(ex, self._let_update([(st.target.id, e)]) + '\n' + self.block(rest, k, ctx), ctx)
+        if isinstance(st, ast.Delete) and len(st.targets) == 1 and isinstance(st.targets[0], ast.Subscript) \
+                and self.dict_view(st.targets[0].value) is not None:
+            return self._view_store(self.dict_view(st.targets[0].value), st.targets[0], None, st, rest, k, ctx, ex)
+        if isinstance(st, ast.Expr) and isinstance(st.value, ast.Call) and isinstance(st.value.func, ast.Name) \
+                and st.value.func.id == 'hash' and len(st.value.args) == 1 and not st.value.keywords \
+                and isinstance(st.value.args[0], ast.Name) and self.cls is not None:
+            ex.expr(st.value.args[0])           # `hash(x)` of a key-typed variable: the spec fixes hashable keys
+            return self.block(rest, k, ctx)
+        if isinstance(st, ast.Expr) and isinstance(st.value, ast.Call) and self._raw_dict(st.value) is not None:
+            _, _, upd = self._raw_dict_value(self._raw_dict(st.value), st.value, ex)
+            return self._wrap(ex, self._let_update(upd) + '\n' + self.block(rest, k, ctx), ctx)
+        if isinstance(st, ast.Delete):
+            upd = []
+            for tgt in st.targets:
+                if not (isinstance(tgt, ast.Subscript) and self._is_place(tgt)):
+                    raise Unsupported(st, 'del of anything but an item of an attribute of self')
+                read, bt, write = self._place(tgt.value, ex)
+                if bt[0] != 'Dict' or len(st.targets) != 1:
+                    raise Unsupported(st, 'del of a non-dict item')
+                d = read()
+                kx, _ = ex.expr(tgt.slice, bt[1])
+                if self.raises:
+                    upd.append(write(ex.partial('PyRt.Dict.del? %s %s' % (d, kx), st)))
+                else:
+                    upd.append(write('(PyRt.Dict.erase %s %s)' % (d, kx)))
+            return self._wrap(ex, self._let_update(upd) + '\n' + self.block(rest, k, ctx), ctx)
+        if isinstance(st, ast.Expr) and isinstance(st.value, ast.Call) and self._mutation(st.value) is not None \
+                and self._mutation(st.value)[0] != self.self_name:
             var, op, arg = self._mutation(st.value)
             vt = self.vars[var]
             if vt[0] != 'List':
@@ -587,28 +987,77 @@ class FnTranslator:
             if op == 'append':
                 a, _ = ex.expr(arg, vt[1])
                 e = 'PyRt.append s.%s %s' % (self.field(var), a)
+            elif op == 'extend':
+                a, at = ex.expr(arg, vt)
+                e = '(s.%s ++ %s)' % (self.field(var), a)
             else:
                 e = 'PyRt.popLast s.%s' % self.field(var)
-            return self._let_update([(var, e)]) + '\n' + self.block(rest, k, ctx)
+            return self._wrap(ex, self._let_update([(var, e)]) + '\n' + self.block(rest, k, ctx), ctx)
+        if isinstance(st, ast.Expr) and isinstance(st.value, ast.Call) and isinstance(st.value.func, ast.Attribute) \
+                and st.value.func.attr in ('add', 'remove', 'discard') and self.cls is not None \
+                and self_rooted(st.value.func.value, self.self_name) and not st.value.keywords \
+                and len(st.value.args) == 1:
+            # `<place>.add(x)` / `.remove(x)` / `.discard(x)` on a set stored in the object state
+            read, pt, write = self._place(st.value.func.value, ex)
+            if pt[0] != 'Set':
+                raise Unsupported(st, '%s on %s' % (st.value.func.attr, pt))
+            cur = read()
+            a, _ = ex.expr(st.value.args[0], pt[1])
+            m = st.value.func.attr
+            if m == 'remove':
+                if not self.raises:
+                    raise Unsupported(st, 'set.remove outside the raising mode')
+                new = ex.partial('PyRt.Set.remove? %s %s' % (cur, a), st)
+            else:
+                new = '(PyRt.Set.%s %s %s)' % (m, cur, a)
+            return self._wrap(ex, self._let_update([write(new)]) + '\n' + self.block(rest, k, ctx), ctx)
+        if isinstance(st, ast.Expr) and isinstance(st.value, (ast.Call, ast.Subscript)) \
+                and self._method_call(st.value, ctx) is not None:
+            callee = self._method_call(st.value, ctx)
+            if callee['mutates']:
+                return self._call_stmt(callee, st.value, None, rest, k, ctx, ex)
+            ex.expr(st.value)                                   # evaluated for its exceptions only
+            return self._wrap(ex, self.block(rest, k, ctx), ctx)
+        if isinstance(st, ast.Expr) and self.raises and self.cls is not None \
+                and isinstance(st.value, (ast.Subscript, ast.Compare, ast.BinOp, ast.Name, ast.Attribute)):
+            ex.expr(st.value)                   # an expression statement: evaluated for its exceptions only
+            return self._wrap(ex, self.block(rest, k, ctx), ctx)
         if isinstance(st, ast.Expr) and isinstance(st.value, ast.Yield):
             if self.kind != 'generator':
                 raise Unsupported(st, 'yield in a function')
             if st.value.value is None:
                 raise Unsupported(st, 'bare yield')
             y, _ = ex.expr(st.value.value, self.result_t)
+            if self.raises:
+                return self._wrap(ex, 'PyRt.yieldCons %s\n%s' % (
+                    self._atom(y), indent(paren(self.block(rest, k, ctx)))), ctx)
             return '%s ::\n%s' % (y, indent(paren(self.block(rest, k, ctx))))
         if isinstance(st, ast.Return):
             if self.kind == 'generator':
                 if st.value is not None:
                     raise Unsupported(st, 'return with a value in a generator')
-                return '[]'
+                return self.ret('[]')
+            if st.value is not None:
+                callee = self._method_call(st.value, ctx)
+                if callee is not None and callee['mutates']:
+                    return self._call_stmt(callee, st.value, 'return', rest, k, ctx, ex)
+                raw = self._raw_dict(st.value)
+                if raw is not None:
+                    val, vt, upd = self._raw_dict_value(raw, st.value, ex)
+                    if val is None or vt != self.result_t:
+                        raise Unsupported(st, 'result of dict.%s' % raw[0])
+                    return self._wrap(ex, self._let_update(upd) + '\n' + self.ret(val), ctx)
+            if self.result_t == UNIT:
+                if st.value is not None and not (isinstance(st.value, ast.Constant) and st.value.value is None):
+                    raise Unsupported(st, 'a value returned from a function declared to return None')
+                return self.ret('()')
             if st.value is None:
                 v = ast.Constant(value=None)
                 ast.copy_location(v, st)
             else:
                 v = st.value
             e, _ = ex.expr(v, self.result_t)
-            return e
+            return self._wrap(ex, self.ret(e), ctx)
         if isinstance(st, ast.Break):
             if ctx.get('kbreak') is None:
                 raise Unsupported(st, 'break outside a loop')
@@ -618,14 +1067,132 @@ class FnTranslator:
                 raise Unsupported(st, 'continue outside a loop')
             return ctx['kcontinue']
         if isinstance(st, ast.If):
-            kk, prefix = self._share(self.block(rest, k, ctx))
+            static = ex.static_test(st.test)
+            if static is not None:          # a kind test decided by the declared type: only the live branch
+                return self.block((st.body if static else st.orelse) + rest, k, ctx)
+            nn = ctx.get('nn', frozenset())
+            t_, f_ = narrow(st.test)
+            kk, prefix = self._share(self.block(rest, k, self._with_nn(ctx, flow_after_if(st, nn))))
             c = ex.cond(st.test)
-            a = self.block(st.body, kk, ctx)
-            b = self.block(st.orelse, kk, ctx)
-            return prefix + 'if %s then\n%s\nelse\n%s' % (c, indent(a), indent(b))
+            a = self.block(st.body, kk, self._with_nn(ctx, nn | t_))
+            b = self.block(st.orelse, kk, self._with_nn(ctx, nn | f_))
+            return prefix + self._wrap(ex, 'if %s then\n%s\nelse\n%s' % (c, indent(a), indent(b)), ctx)
         if isinstance(st, ast.For):
             return self._for(st, rest, k, ctx, ex)
+        if isinstance(st, ast.While):
+            return self._while(st, rest, k, ctx)
+        if isinstance(st, ast.Try):
+            return self._try(st, rest, k, ctx)
+        if isinstance(st, ast.Raise) and self.raises:
+            return self._raise('PyExc.' + self._exc_class(st), ctx)
         raise Unsupported(st)
+
+    @staticmethod
+    def _with_nn(ctx, nn):
+        if not nn and not ctx.get('nn'):
+            return ctx
+        c = dict(ctx)
+        c['nn'] = frozenset(nn)
+        return c
+
+    def _forget(self, ctx, stmts):
+        """the context after `stmts` assigned some variables: they are no longer known to be not-None"""
+        if not ctx.get('nn'):
+            return ctx
+        return self._with_nn(ctx, ctx['nn'] - assigned_names(stmts))
+
+    def _exc_class(self, st: ast.Raise) -> str:
+        """`raise X` / `raise X(message)`: only the class is modelled; the message may not do anything"""
+        if st.cause is not None or st.exc is None:
+            raise Unsupported(st, 'raise ... from / bare re-raise')
+        exc = st.exc
+        args = []
+        if isinstance(exc, ast.Call):
+            if exc.keywords:
+                raise Unsupported(st, 'exception constructor keywords')
+            args, exc = exc.args, exc.func
+        if not isinstance(exc, ast.Name) or exc.id not in EXC_NAMES:
+            raise Unsupported(st, 'exception class outside %s' % (EXC_NAMES,))
+        for a in args:
+            ok = isinstance(a, (ast.Constant, ast.Name))
+            if isinstance(a, ast.BinOp) and isinstance(a.op, ast.Mod) and isinstance(a.left, ast.Constant) \
+                    and isinstance(a.left.value, str) and not a.left.value.replace('%r', '').replace('%s', '').count('%'):
+                ok = all(isinstance(x, (ast.Name, ast.Constant, ast.Tuple, ast.Attribute, ast.Load))
+                         for x in ast.walk(a.right))
+            if not ok:
+                raise Unsupported(st, 'exception message that could itself raise')
+        return exc.id
+
+    def _while(self, st: ast.While, rest, k, ctx):
+        """while c: body [else: E]  ->  a loop definition structurally recursive on an explicit bound `lfuel`
+        (one unit per test of the condition); `PyExc.OutOfFuel`, which no handler catches, when it runs out"""
+        if not (self.raises and self.loop_fuel):
+            raise Unsupported(st, 'while loop (the spec must declare `loop_fuel` and the raising mode)')
+        if ctx.get('kbreak') is not None or ctx.get('in_loop'):
+            raise Unsupported(st, 'while loop inside another loop')
+        loop = '%s.loop%d' % (self.name, len(self.loops) + 1)
+        self.loops.append(None)
+        idx = len(self.loops) - 1
+        inner = self._forget(ctx, [st])
+        again = '%s k kbreak kexc n s' % loop
+        body_ctx = {'kbreak': 'kbreak s', 'kcontinue': again, 'kexc': 'kexc', 'in_loop': True}
+        if inner.get('nn'):
+            body_ctx['nn'] = inner['nn']
+        ex = self._ex(body_ctx)
+        c = ex.cond(st.test)
+        t_, f_ = narrow(st.test)
+        body = self.block(st.body, again, self._with_nn(body_ctx, body_ctx.get('nn', frozenset()) | t_))
+        step = self._wrap(ex, 'if %s then\n%s\nelse\n  k s' % (c, indent(body)), body_ctx)
+        forever = isinstance(st.test, ast.Constant) and st.test.value is True
+        if forever:                          # `while True:` is left only by break / return / an exception
+            step = body
+        R = self.RT
+        text = ('def %s %s(k kbreak : %s → %s) (kexc : PyExc → %s → %s) : Nat → %s → %s\n'
+                '  | 0, s => %s\n'
+                '  | n + 1, s =>\n%s\n' % (
+                    loop, self.tbinder(), self.st, R, self.st, R, self.st, R,
+                    self.throw('PyExc.OutOfFuel'), indent(step, 4)))
+        self.loops[idx] = text
+        self.loop_texts.append(text)
+        after = self.block(rest, k, inner)
+        kb, prefix = self._share(after)
+        kn, prefix2 = self._share(self.block(st.orelse, kb, inner)) if st.orelse else (kb, '')
+        if forever:
+            if st.orelse:
+                raise Unsupported(st, 'while True ... else')
+            kn = self.throw('PyExc.Other')      # never used: the loop definition does not call `k`
+            if not any(isinstance(n, ast.Break) for n in ast.walk(st)):
+                kb, prefix = kn, ''             # nor `kbreak`: the statements after the loop are unreachable
+
+        def as_fun(term):
+            if term.endswith(' s') and ' ' not in term[:-2] and '\n' not in term:
+                return term[:-2]
+            return paren('fun (s : %s) => %s' % (self.st, term))
+        hx = ctx.get('kexc') or paren('fun (e : PyExc) (s : %s) => %s' % (self.st, self.throw('e')))
+        return prefix + prefix2 + '%s %s %s %s lfuel s' % (loop, as_fun(kn), as_fun(kb), hx)
+
+    def _try(self, st: ast.Try, rest, k, ctx):
+        """try: A  except E1: B1 ...  [else: C]   (no finally, no `as`, exact classes of PyExc)"""
+        if not self.raises:
+            raise Unsupported(st, 'try outside the raising mode')
+        if st.finalbody or not st.handlers:
+            raise Unsupported(st, 'try ... finally')
+        inner = self._forget(ctx, [st])
+        kk, prefix = self._share(self.block(rest, k, inner))
+        arms = []
+        for hd in st.handlers:
+            if hd.name is not None or not isinstance(hd.type, ast.Name) or hd.type.id not in EXC_NAMES:
+                raise Unsupported(hd, 'handler other than `except <one class of PyExc>:`')
+            arms.append((hd.type.id, self.block(hd.body, kk, inner)))
+        text = self._raise('e', ctx)
+        for name, b in reversed(arms):
+            text = 'if e = PyExc.%s then\n%s\nelse\n%s' % (name, indent(b), indent(text))
+        h = self.fresh('h_')
+        hdef = 'let %s := fun (e : PyExc) (s : %s) =>\n%s\n' % (h, self.st, indent(text))
+        body_k, prefix2 = self._share(self.block(st.orelse, kk, inner)) if st.orelse else (kk, '')
+        inner_try = dict(inner)
+        inner_try['kexc'] = h
+        return prefix + hdef + prefix2 + self.block(st.body, body_k, inner_try)
 
     def _share(self, term):
         """bind a continuation term once if it is not small: returns (term to use, `let` prefix)"""
@@ -635,16 +1202,173 @@ class FnTranslator:
         return '%s s' % name, 'let %s := fun (s : %s) =>\n%s\n' % (name, self.st, indent(term))
 
     def _let_update(self, upd):
-        return 'let s : %s := { s with %s }' % (self.st, ', '.join('%s := %s' % (self.field(n), e) for n, e in upd))
+        obj = [(n[5:], e) for n, e in upd if self.cls is not None and n.startswith('self.')]
+        parts = ['%s := %s' % (self.field(n), e) for n, e in upd
+                 if not (self.cls is not None and n.startswith('self.'))]
+        if obj:
+            if len({a for a, _ in obj}) != len(obj):
+                raise Unsupported(self.f, 'one statement updates an attribute twice')
+            parts.insert(0, 'self := { s.self with %s }' % ', '.join(
+                '%s := %s' % (lean_field(a), e) for a, e in obj))
+        return 'let s : %s := { s with %s }' % (self.st, ', '.join(parts))
+
+    # -- a dict subclass: `self` / `self.<peer>` used as the dict they are ------------------------------
+    def _view_store(self, dv, tgt, value, st, rest, k, ctx, ex):
+        """`X[k] = v` (value given) / `del X[k]` (value None) where X is `self` or the peer object: the class's
+        own `__setitem__` / `__delitem__` when it defines one (then it must be in the spec), else the dict's"""
+        attr, peer = dv
+        if isinstance(tgt.slice, ast.Slice):
+            raise Unsupported(st, 'slice')
+        dunder = '__setitem__' if value is not None else '__delitem__'
+        if self.cls_defines(dunder):
+            args = [tgt.slice] + ([value] if value is not None else [])
+            callee = self.callee(dunder, args, [], st, ctx.get('nn', frozenset()))
+            if callee is None:
+                raise Unsupported(st, '%s is overridden by the class but not in the spec' % dunder)
+            return self._call_stmt(callee, st, None, rest, k, ctx, ex, peer=peer)
+        t = self.cls_state[attr]
+        d = self.view_term(attr)
+        if value is not None:
+            v, _ = ex.expr(value, t[2])
+            kx, _ = ex.expr(tgt.slice, t[1])
+            new = '(PyRt.Dict.set %s %s %s)' % (d, kx, v)
+        else:
+            kx, _ = ex.expr(tgt.slice, t[1])
+            new = ex.partial('PyRt.Dict.del? %s %s' % (d, kx), st) if self.raises else \
+                '(PyRt.Dict.erase %s %s)' % (d, kx)
+        return self._wrap(ex, self._let_update([('self.' + attr, new)]) + '\n' + self.block(rest, k, ctx), ctx)
+
+    RAW_DICT = ('__setitem__', '__delitem__', 'clear', 'pop', 'popitem')
+
+    def _raw_dict(self, node):
+        """`dict.<m>(X, args)` with X = `self` / the peer: the dict's own operation, bypassing the class's
+        overrides -> (m, state attribute, args) or None"""
+        if isinstance(node, ast.Call) and isinstance(node.func, ast.Attribute) \
+                and isinstance(node.func.value, ast.Name) and node.func.value.id == 'dict' \
+                and 'dict' not in self.vars and node.args and self.dict_view(node.args[0]) is not None:
+            if node.func.attr not in self.RAW_DICT or node.keywords:
+                raise Unsupported(node, 'dict.%s' % node.func.attr)
+            return node.func.attr, self.dict_view(node.args[0])[0], node.args[1:]
+        return None
+
+    def _raw_dict_value(self, raw, node, ex):
+        """-> (value term or None, its type, state updates); arguments are evaluated left to right"""
+        m, attr, args = raw
+        t = self.cls_state[attr]
+        d = self.view_term(attr)
+        if not self.raises:
+            raise Unsupported(node, 'dict.%s outside the raising mode' % m)
+        if m == '__setitem__' and len(args) == 2:
+            kx, _ = ex.expr(args[0], t[1])
+            vx, _ = ex.expr(args[1], t[2])
+            return None, None, [('self.' + attr, '(PyRt.Dict.set %s %s %s)' % (d, kx, vx))]
+        if m == '__delitem__' and len(args) == 1:
+            kx, _ = ex.expr(args[0], t[1])
+            return None, None, [('self.' + attr, ex.partial('PyRt.Dict.del? %s %s' % (d, kx), node))]
+        if m == 'clear' and not args:
+            return None, None, [('self.' + attr, '([] : %s)' % show_type(t))]
+        if m == 'pop' and len(args) == 1:
+            kx, _ = ex.expr(args[0], t[1])
+            v = ex.partial('PyRt.Dict.pop? %s %s' % (d, kx), node)
+            return v + '.1', t[2], [('self.' + attr, v + '.2')]
+        if m == 'popitem' and not args:
+            v = ex.partial('PyRt.Dict.popitem? %s' % d, node)
+            return v + '.1', ('Prod', (t[1], t[2])), [('self.' + attr, v + '.2')]
+        raise Unsupported(node, 'dict.%s with these arguments' % m)
+
+    def _bind_value(self, tgt, val, vt, upd, node):
+        """`x = <value>` / `a, b = <pair value>` for a value that is already a Lean term"""
+        if isinstance(tgt, ast.Name):
+            if self.vars.get(tgt.id) != vt:
+                raise Unsupported(node, 'type of the assigned value')
+            upd.append((tgt.id, val))
+        elif isinstance(tgt, (ast.Tuple, ast.List)) and vt[0] == 'Prod' and len(vt[1]) == len(tgt.elts):
+            for i, (e, et) in enumerate(zip(tgt.elts, vt[1])):
+                self._bind_value(e, prod_proj(val, i, len(vt[1])), et, upd, node)
+        else:
+            raise Unsupported(node, 'assignment target')
+
+    # -- places: attributes of self and items of them ---------------------------------------------
+    def _place(self, node, ex):
+        """an assignable place rooted at an attribute of `self` -> (read, type, write):
+        `read()` = Lean term of its current value (may hoist a partial lookup), `write(new)` = the update
+        (root variable, new root value) storing `new` there.  Sub-expressions are evaluated on the way."""
+        if isinstance(node, ast.Attribute):
+            attr = self.state_attr(node)
+            if attr is None:
+                raise Unsupported(node, 'attribute %s is not declared in the spec' % node.attr)
+            term = 's.self.%s' % lean_field(attr)
+            return (lambda: term), self.cls_state[attr], (lambda new: ('self.' + attr, new))
+        if isinstance(node, ast.Subscript):
+            bread, bt, bwrite = self._place(node.value, ex)
+            base = bread()
+            if bt[0] == 'Dict':
+                kx, _ = ex.expr(node.slice, bt[1])
+                if not self.raises:
+                    raise Unsupported(node, 'dict item outside the raising mode')
+                return ((lambda: ex.partial('PyRt.Dict.get? %s %s' % (base, kx), node)), bt[2],
+                        (lambda new: bwrite('(PyRt.Dict.set %s %s %s)' % (base, kx, new))))
+            if bt[0] == 'Prod':
+                i = ex.const_index(node.slice, len(bt[1]))
+                n = len(bt[1])
+
+                def write(new, i=i, n=n):
+                    comps = [new if j == i else prod_proj(base, j, n) for j in range(n)]
+                    return bwrite('(' + ', '.join(comps) + ')')
+                return (lambda: prod_proj(base, i, n)), bt[1][i], write
+            raise Unsupported(node, 'item assignment on %s' % (bt,))
+        raise Unsupported(node, 'assignment target')
+
+    def _place_type(self, node):
+        if isinstance(node, ast.Attribute):
+            attr = self.state_attr(node)
+            if attr is None:
+                raise Unsupported(node, 'attribute %s is not declared in the spec' % node.attr)
+            return self.cls_state[attr]
+        bt = self._place_type(node.value)
+        if bt[0] == 'Dict':
+            return bt[2]
+        if bt[0] == 'Prod':
+            return bt[1][ExprTr(self).const_index(node.slice, len(bt[1]))]
+        raise Unsupported(node, 'item assignment on %s' % (bt,))
+
+    def _root_attr(self, node):
+        while not (isinstance(node, ast.Attribute) and self.state_attr(node) is not None):
+            if not isinstance(node, (ast.Attribute, ast.Subscript)):
+                raise Unsupported(node, 'assignment target')
+            node = node.value
+        return self.state_attr(node)
+
+    @staticmethod
+    def _scalar(t):
+        return t[0] in ('Int', 'Bool', 'Str', 'Var', 'Unit') or (t[0] == 'Option' and FnTranslator._scalar(t[1]))
+
+    def _alias_check(self, value, tgt_attr, t, node):
+        """value semantics is only right when no two live references to one mutable object exist: in a
+        method that changes the object state, a non-scalar value computed from attribute `g` may only be
+        stored back into `g` itself (the old container dies in the same statement)"""
+        if self.cls is None or not self.cls_mut or self._scalar(t):
+            return
+        for n in ast.walk(value):
+            a = self.state_attr(n) if isinstance(n, ast.Attribute) else None
+            if a is not None and not self._scalar(self.cls_state[a]) and a != tgt_attr:
+                raise Unsupported(node, 'possible alias of the mutable attribute %s' % a)
 
     def _assign(self, tgt, value, upd, ex, node):
         if isinstance(tgt, ast.Name):
             if tgt.id not in self.vars or tgt.id.startswith('self.'):
                 raise Unsupported(node, 'assignment target')
+            self._alias_check(value, None, self.vars[tgt.id], node)
             e, _ = ex.expr(value, self.vars[tgt.id])
             if any(n == tgt.id for n, _ in upd):
                 raise Unsupported(node, 'variable assigned twice in one tuple assignment')
             upd.append((tgt.id, e))
+        elif self._is_place(tgt):
+            t = self._place_type(tgt)
+            self._alias_check(value, self._root_attr(tgt), t, node)
+            e, _ = ex.expr(value, t)                        # Python evaluates the right-hand side first
+            read, _, write = self._place(tgt, ex)
+            upd.append(write(e))
         elif isinstance(tgt, (ast.Tuple, ast.List)):
             if isinstance(value, (ast.Tuple, ast.List)) and len(value.elts) == len(tgt.elts):
                 for t1, v1 in zip(tgt.elts, value.elts):
@@ -653,6 +1377,130 @@ class FnTranslator:
                 raise Unsupported(node, 'tuple assignment from a non-display')
         else:
             raise Unsupported(node, 'assignment target')
+
+    # -- calls of translated methods of the same object ------------------------------------------------
+    def _method_call(self, node, ctx=None):
+        """`self.m(args)` / `self[k]` where `m` is a translated method -> callee description, else None"""
+        if self.cls is None:
+            return None
+        nn = (ctx or {}).get('nn', frozenset())
+        if isinstance(node, ast.Call) and isinstance(node.func, ast.Attribute) \
+                and isinstance(node.func.value, ast.Name) and node.func.value.id == self.self_name:
+            return self.callee(node.func.attr, node.args, node.keywords, node, nn)
+        if isinstance(node, ast.Subscript) and isinstance(node.value, ast.Name) and node.value.id == self.self_name \
+                and isinstance(node.ctx, ast.Load) and not isinstance(node.slice, ast.Slice):
+            return self.callee('__getitem__', [node.slice], [], node, nn)
+        return None
+
+    def callee(self, pyname, args, keywords, node, nn=frozenset()):
+        """pick the translated variant of method `pyname` whose declared parameter types fit the arguments"""
+        cands = method_specs(self.cls, pyname)
+        if not cands:
+            return None
+        why = ''
+        for sp in cands:
+            fdef = _find_function(self.tree, sp['qualname'])
+            names = [a.arg for a in fdef.args.args][1:]
+            if list(sp['params']) != names or len(args) > len(names):
+                why = 'signature'
+                continue
+            defaults = dict(zip(names[len(names) - len(fdef.args.defaults):], fdef.args.defaults)) \
+                if fdef.args.defaults else {}
+            bound = dict(zip(names, args))
+            extra = []                      # keyword arguments that go into **kwargs: not supported in calls
+            bad = False
+            for kw in keywords:
+                if kw.arg is None or kw.arg in bound:
+                    bad = True
+                elif kw.arg in names:
+                    bound[kw.arg] = kw.value
+                else:
+                    extra.append(kw)
+            if bad or extra:
+                why = 'keywords'
+                continue
+            actual = []
+            try:
+                for n in names:
+                    pt = parse_type(sp['params'][n])
+                    a = bound.get(n, defaults.get(n))
+                    if a is None:
+                        raise Unsupported(node, 'argument %s missing' % n)
+                    if n not in bound and not isinstance(a, ast.Constant):
+                        # a default is evaluated ONCE, at definition time: only immutable constants are the
+                        # same value at every call (sentinel names are read as None by the callee's own spec)
+                        if isinstance(a, ast.Name) and a.id in self.cls.get('sentinels', ()):
+                            a = ast.copy_location(ast.Constant(value=None), a)
+                        else:
+                            raise Unsupported(node, 'default value of %s is not a constant' % n)
+                    ExprTr(self, infer_only=True, nn=nn).expr(a, pt)
+                    actual.append((a, pt))
+            except (Unsupported, _Unknown) as e:
+                why = str(e)
+                continue
+            if self.emitted is not None and sp['lean_name'] not in self.emitted and sp['lean_name'] != self.name:
+                raise Unsupported(node, 'method %s is not translated (before this one)' % sp['lean_name'])
+            res = parse_type(sp['result'])
+            return {'spec': sp, 'lean_name': sp['lean_name'], 'args': actual,
+                    'kwargs': parse_type(list(sp['kwargs'].values())[0]) if 'kwargs' in sp else None,
+                    'raises': bool(sp.get('raises')), 'fuel': bool(sp.get('fuel')),
+                    'mutates': method_mutates(self.cls, fdef, self.tree),
+                    'result': ('List', res) if sp['kind'] == 'generator' else res}
+        raise Unsupported(node, 'no translated variant of %s fits the arguments (%s)' % (pyname, why))
+
+    def call_app(self, callee, ex, node, ctx=None, peer=False):
+        """Lean application of a translated method to `s.self` (the peer object: to the swapped state) and the
+        (translated) arguments"""
+        if callee['raises'] and not self.raises:
+            raise Unsupported(node, 'call of a raising method outside the raising mode')
+        if callee['lean_name'] == self.name and not (self.fuel and callee['fuel']):
+            raise Unsupported(node, 'a recursive method must be declared with `fuel` in the spec')
+        if callee['fuel']:
+            if not self.fuel:
+                raise Unsupported(node, 'call of a recursive method from a method without `fuel`')
+            if ctx is not None and ctx.get('in_loop'):
+                raise Unsupported(node, 'recursive call inside a loop')
+        parts = [callee['lean_name']]
+        if callee['fuel']:
+            parts.append('fuel')
+        if callee['spec'].get('loop_fuel'):
+            if not self.loop_fuel:
+                raise Unsupported(node, 'call of a method with `while` loops from one without `loop_fuel`')
+            parts.append('lfuel')
+        parts.append('(%s.St.swap s.self)' % self.cls['lean_name'] if peer else 's.self')
+        for a, pt in callee['args']:
+            parts.append(self._atom(ex.expr(a, pt)[0]))
+        if callee['kwargs'] is not None:
+            parts.append('([] : %s)' % show_type(callee['kwargs']))
+        return ' '.join(parts)
+
+    def _call_stmt(self, callee, node, tgt, rest, k, ctx, ex, peer=False):
+        """statement-level call of a state-changing method: `self.m(..)`, `x = self.m(..)`, `return self.m(..)`"""
+        app = self.call_app(callee, ex, node, ctx, peer)
+        r = self.fresh('r')
+
+        def after(val, st1):
+            upd = 'self := %s' % (('(%s.St.swap %s)' % (self.cls['lean_name'], st1)) if peer else st1)
+            if tgt == 'return':
+                if callee['result'] != self.result_t:
+                    raise Unsupported(node, 'result type of the called method')
+                return 'let s : %s := { s with %s }\n%s' % (self.st, upd, self.ret(val))
+            ctx2 = ctx
+            if tgt is not None:
+                if not isinstance(tgt, ast.Name) or self.vars.get(tgt.id) != callee['result']:
+                    raise Unsupported(node, 'target of a method call result')
+                upd += ', %s := %s' % (self.field(tgt.id), val)
+                ctx2 = self._forget(ctx, [ast.Assign(targets=[tgt], value=node)])
+            return 'let s : %s := { s with %s }\n%s' % (self.st, upd, self.block(rest, k, ctx2))
+        if callee['raises']:
+            need = tgt is not None
+            st1x = ('(%s.St.swap st1)' % self.cls['lean_name']) if peer else 'st1'
+            text = ('(match %s with\n| (.error e, st1) =>\n  let s : %s := { s with self := %s }\n  %s\n'
+                    '| (.ok %s, st1) =>\n%s)' % (app, self.st, st1x, self._raise('e', ctx), r if need else '_',
+                                                 indent(after(r, 'st1'))))
+        else:
+            text = 'let %s := %s\n%s' % (r, app, after(r + '.1', r + '.2'))
+        return self._wrap(ex, text, ctx)
 
     def _for(self, st: ast.For, rest, k, ctx, ex):
         # element list, evaluated once in the state before the loop
@@ -668,10 +1516,22 @@ class FnTranslator:
             items = 'PyRt.range %s %s %s' % tuple(es)
             et = INT
         else:
-            items, lt = ex.expr(st.iter)
+            items, lt = ex.consumed(st.iter)
+            if lt[0] == 'Dict':
+                items, lt = 'PyRt.Dict.keys %s' % items, ('List', lt[1])
+            if lt[0] == 'Set':
+                raise Unsupported(st.iter, 'iteration over a set (its order is unspecified in Python)')
             if lt[0] != 'List':
                 raise Unsupported(st.iter, 'iteration over a non-list')
             et = lt[1]
+        if self.cls is not None and self.cls_mut:
+            # the items are a snapshot taken before the loop: right only if the body cannot change them
+            for n in ast.walk(st.iter):
+                if isinstance(n, ast.Name) and n.id == self.self_name:
+                    probe = ast.FunctionDef(name='_', args=self.f.args, body=st.body + st.orelse,
+                                            decorator_list=[], lineno=st.lineno, col_offset=0)
+                    if method_mutates(self.cls, probe, self.tree):
+                        raise Unsupported(st, 'loop over object state that the body changes')
         # pattern for the loop variable(s)
         binds = []
 
@@ -687,21 +1547,31 @@ class FnTranslator:
         loop = '%s.loop%d' % (self.name, len(self.loops) + 1)
         self.loops.append(None)                  # reserve the number (outer loops are numbered first)
         idx = len(self.loops) - 1
-        again = '%s k kbreak xs s' % loop
-        body = self.block(st.body, again, {'kbreak': 'kbreak s', 'kcontinue': again})
-        R = show_type(self.R)
-        text = ('def %s %s(k kbreak : %s → %s) : List %s → %s → %s\n'
+        kx = ' kexc' if self.raises else ''
+        again = '%s k kbreak%s xs s' % (loop, kx)
+        inner = self._forget(ctx, [st])
+        body_ctx = {'kbreak': 'kbreak s', 'kcontinue': again}
+        if self.raises:
+            body_ctx['kexc'] = 'kexc'
+        if self.fuel:
+            body_ctx['in_loop'] = True
+        if inner.get('nn'):
+            body_ctx['nn'] = inner['nn']
+        body = self.block(st.body, again, body_ctx)
+        R = self.RT
+        kexc_b = '(kexc : PyExc → %s → %s) ' % (self.st, R) if self.raises else ''
+        text = ('def %s %s(k kbreak : %s → %s) %s: List %s → %s → %s\n'
                 '  | [], s => k s\n'
                 '  | %s :: xs, s =>\n%s\n%s\n' % (
-                    loop, self.tbinder(), self.st, R, show_type(et, False), self.st, R, p,
+                    loop, self.tbinder(), self.st, R, kexc_b, show_type(et, False), self.st, R, p,
                     indent(self._let_update([(n, v) for n, v in binds]), 4), indent(body, 4)))
         self.loops[idx] = text
         self.loop_texts.append(text)             # inner loops are completed (and emitted) before outer ones
         # continuations: normal exit runs the `else:` clause, `break` skips it
-        after = self.block(rest, k, ctx)
+        after = self.block(rest, k, inner)
         kb, prefix = self._share(after)
         if st.orelse:
-            kn_term = self.block(st.orelse, kb, ctx)
+            kn_term = self.block(st.orelse, kb, inner)
         else:
             kn_term = kb
         kn, prefix2 = self._share(kn_term) if st.orelse else (kb, '')
@@ -710,48 +1580,77 @@ class FnTranslator:
             if term.endswith(' s') and ' ' not in term[:-2] and '\n' not in term:
                 return term[:-2]                # `k_3 s` -> `k_3`
             return paren('fun (s : %s) => %s' % (self.st, term))
-        return prefix + prefix2 + '%s %s %s %s s' % (loop, as_fun(kn), as_fun(kb), paren(items))
+        hx = ''
+        if self.raises:
+            hx = ' ' + (ctx.get('kexc') or paren('fun (e : PyExc) (s : %s) => %s' % (self.st, self.throw('e'))))
+        return prefix + prefix2 + self._wrap(
+            ex, '%s %s %s%s %s s' % (loop, as_fun(kn), as_fun(kb), hx, paren(items)), ctx)
 
     # -- whole function ------------------------------------------------------------------------
     BUILTINS = ('len', 'min', 'max', 'int', 'list', 'tuple', 'bool', 'range')
+    BUILTINS2 = ('sum', 'sorted', 'enumerate', 'dict', 'set', 'callable', 'getattr', 'isinstance', 'hash')
 
     def emit(self):
         self._check_mutation_discipline()
         for n in self.vars:
-            if n in self.BUILTINS:
+            if n in self.BUILTINS or (n in self.BUILTINS2 and (self.cls is not None or self.raises)):
                 raise Unsupported(self.f, 'variable %s shadows a builtin the translator interprets' % n)
         for n in ast.walk(self.f):
             if isinstance(n, (ast.Global, ast.Nonlocal)):
                 raise Unsupported(n)
         end = '[]' if self.kind == 'generator' else '⊥END⊥'
+        if self.kind == 'generator' and self.raises:
+            end = self.ret('[]')
         body = self.block(self.body, end, {})
         if '⊥END⊥' in body:
             if self.R[0] == 'Option':
-                body = body.replace('⊥END⊥', 'none')
+                body = body.replace('⊥END⊥', self.ret('none'))
+            elif self.R == UNIT:
+                body = body.replace('⊥END⊥', self.ret('()'))
             else:
                 raise Unsupported(self.f, 'the function can fall off its end (implicit `return None`)')
-        R = show_type(self.R)
+        R = self.RT
         out = []
         fields = [(self.field(n), t) for n, t in self.vars.items()]
         out.append('/-- all Python variables of `%s` -/' % self.spec['qualname'])
         out.append('structure %s.St %swhere' % (self.name, self.tbinder(False)))
+        if self.cls is not None:
+            out.append('  self : %s' % self.cls_st)
         for (py, _), (n, t) in zip(self.vars.items(), fields):
             out.append('  %s : %s%s' % (n, show_type(t), '' if n == py else '    -- ' + py))
         out.append('')
         for text in self.loop_texts:
             out.append(text)
-        out.append('def %s.body %s(s : %s) : %s :=\n%s\n' % (self.name, self.tbinder(), self.st, R, indent(body)))
-        plist = ' '.join('(%s : %s)' % (n, show_type(t)) for n, t in self.params)
+        plist = ' '.join('(%s : %s)' % (n, self.ptype(t)) for n, t in self.params)
+        if self.loop_fuel:
+            plist = '(lfuel : Nat) ' + plist
         pnames = {n for n, _ in self.params}
-        inits = []
+        inits = ['self := self'] if self.cls is not None else []
         for n, t in fields:
-            inits.append('%s := %s' % (n, n if n in pnames else default_of(t)))
-        out.append('def %s %s%s : %s :=\n  %s.body { %s }\n' % (
-            self.name, self.tbinder(), plist, R, self.name, ', '.join(inits)))
+            inits.append('%s := %s' % (n, n if n in pnames else self.default_of(t)))
+        if self.fuel and self.loop_fuel:
+            raise Unsupported(self.f, '`fuel` and `loop_fuel` together')
+        if self.fuel:
+            # a (mutually) recursive method: `fuel` = remaining call depth, RecursionError when it runs out
+            over = '(.error PyExc.RecursionError, self)' if self.cls_mut else '.error PyExc.RecursionError'
+            if not self.raises:
+                raise Unsupported(self.f, 'a recursive method must be in the raising mode')
+            out.append('def %s %s(fuel : Nat) %s : %s :=\n  match fuel with\n  | 0 => %s\n  | fuel + 1 =>\n'
+                       '    let s : %s := { %s }\n%s\n' % (
+                           self.name, self.tbinder(), plist, R, over, self.st, ', '.join(inits), indent(body, 4)))
+            return '\n'.join(out)
+        lf = '(lfuel : Nat) ' if self.loop_fuel else ''
+        out.append('def %s.body %s%s(s : %s) : %s :=\n%s\n' % (
+            self.name, self.tbinder(), lf, self.st, R, indent(body)))
+        out.append('def %s %s%s : %s :=\n  %s.body %s{ %s }\n' % (
+            self.name, self.tbinder(), plist, R, self.name, 'lfuel ' if self.loop_fuel else '', ', '.join(inits)))
+        if self.cls is not None:
+            return '\n'.join(out)
         pre = ' && '.join('(%s)' % c for c in self.pre_conjuncts) if self.pre_conjuncts else 'true'
         out.append('/-- no guard call of `%s` raises -/' % self.spec['qualname'])
         out.append('def %s_pre %s%s : Bool :=\n  %s\n' % (self.name, self.tbinder(), plist, pre))
         return '\n'.join(out)
+
 
 
 class _Unknown(Exception):
@@ -761,13 +1660,29 @@ class _Unknown(Exception):
 class ExprTr:
     """expressions: `expr(node, expected) -> (lean term, type)`, `cond(node) -> lean Prop`"""
 
-    def __init__(self, fn: FnTranslator, env_override=None, infer_only=False):
+    def __init__(self, fn: FnTranslator, env_override=None, infer_only=False, nn=frozenset(), hoists=None):
         self.fn = fn
         self.env = env_override
         self.infer_only = infer_only
+        self.nn = frozenset(nn)             # variables known not to be None here (flow analysis)
+        self.hoists = hoists                # raising mode: partial operations of this statement, in order
+        self.no_hoist = 0                   # > 0: inside a conditionally evaluated sub-expression
+        self.local = {}                     # comprehension / lambda variables -> (term, type)
+        self.bound = 0
+        self.consume_node = None            # the expression a consumer (sorted/list/sum/for) is about to exhaust
+
+    def consumed(self, node, expected=None):
+        """translate the argument of something that exhausts an iterable on the spot"""
+        saved, self.consume_node = self.consume_node, node
+        try:
+            return self.expr(node, expected)
+        finally:
+            self.consume_node = saved
 
     # variables -------------------------------------------------------------------------------
     def var(self, name, node):
+        if name in self.local:
+            return self.local[name]
         if self.env is not None:
             if name not in self.env:
                 raise Unsupported(node, 'free name %s' % name)
@@ -777,7 +1692,85 @@ class ExprTr:
         t = self.fn.vars[name]
         if t is None:
             raise _Unknown()
+        if name in self.nn and t[0] == 'Option':
+            if not known(t):
+                raise _Unknown()
+            return '(PyRt.unwrap s.%s)' % self.fn.field(name), t[1]
         return 's.' + self.fn.field(name), t
+
+    def view(self, dv, dunder, node):
+        """`self` / the peer object used as the dict it is, in an operation the class does not override"""
+        attr, peer = dv
+        if self.fn.cls_defines(dunder):
+            raise Unsupported(node, '%s is overridden by the class%s' % (
+                dunder, ' (peer object)' if peer else ''))
+        return self.fn.view_term(attr), self.fn.cls_state[attr]
+
+    def partial(self, term, node):
+        """a partial operation of the raising mode: bound once, before the statement, in evaluation order"""
+        if self.infer_only:
+            return 'v0'
+        if self.hoists is None or self.no_hoist:
+            raise Unsupported(node, 'an operation that can raise inside a conditionally evaluated expression')
+        self.fn.hcount += 1
+        v = 'v%d' % self.fn.hcount
+        self.hoists.append((v, term))
+        return v
+
+    def fresh_bound(self):
+        self.bound += 1
+        return 'c%d' % self.bound
+
+    def const_index(self, node, n):
+        if isinstance(node, ast.Constant) and isinstance(node.value, int) and not isinstance(node.value, bool) \
+                and -n <= node.value < n:
+            return node.value % n
+        raise Unsupported(node, 'index of a fixed-length tuple must be a constant in range')
+
+    def static_test(self, node):
+        """kind tests decided by the declared static type: `callable(getattr(x, 'items'|'keys', None))`,
+        `isinstance(x, dict)`; True / False / None (not a kind test)"""
+        if isinstance(node, ast.UnaryOp) and isinstance(node.op, ast.Not):
+            r = self.static_test(node.operand)
+            return None if r is None else (not r)
+        if isinstance(node, ast.Compare) and len(node.ops) == 1 and isinstance(node.ops[0], (ast.Is, ast.IsNot, ast.Eq)) \
+                and self.fn.cls is not None:
+            def type_of(n):
+                return n.args[0] if (isinstance(n, ast.Call) and isinstance(n.func, ast.Name) and n.func.id == 'type'
+                                     and len(n.args) == 1 and not n.keywords) else None
+            l, r = type_of(node.left), type_of(node.comparators[0])
+            if l is not None and r is not None:
+                # `type(x) is type(self)`: an argument of a declared container / scalar type is not this class
+                if isinstance(r, ast.Name) and r.id == self.fn.self_name and not (
+                        isinstance(l, ast.Name) and l.id == self.fn.self_name):
+                    t = self.expr(l)[1]
+                    if t[0] in ('Dict', 'List', 'Set', 'Prod', 'Int', 'Bool', 'Str'):
+                        return isinstance(node.ops[0], ast.IsNot)
+                raise Unsupported(node, 'type(...) comparison')
+        if not (isinstance(node, ast.Call) and isinstance(node.func, ast.Name) and not node.keywords):
+            return None
+        if node.func.id == 'callable' and len(node.args) == 1:
+            g = node.args[0]
+            if isinstance(g, ast.Call) and isinstance(g.func, ast.Name) and g.func.id == 'getattr' \
+                    and len(g.args) == 3 and isinstance(g.args[1], ast.Constant) \
+                    and g.args[1].value in ('items', 'keys', 'values') \
+                    and isinstance(g.args[2], ast.Constant) and g.args[2].value is None:
+                t = self.expr(g.args[0])[1]
+                if t[0] == 'Dict':
+                    return True
+                if t[0] in ('List', 'Str', 'Int', 'Bool'):
+                    return False
+                raise Unsupported(node, 'kind test on %s' % (t,))
+            raise Unsupported(node, 'callable(...)')
+        if node.func.id == 'isinstance' and len(node.args) == 2 and isinstance(node.args[1], ast.Name) \
+                and node.args[1].id in ('dict', 'list', 'tuple'):
+            t = self.expr(node.args[0])[1]
+            if t[0] == 'Option':
+                raise Unsupported(node, 'kind test on a value that may be None')
+            if t[0] in ('Dict', 'List', 'Prod', 'Int', 'Bool', 'Str'):
+                return {'dict': t[0] == 'Dict', 'list': t[0] == 'List', 'tuple': t[0] == 'Prod'}[node.args[1].id]
+            raise Unsupported(node, 'kind test on %s' % (t,))
+        return None
 
     def coerce(self, e, t, expected, node):
         if expected is None or t == expected:
@@ -798,6 +1791,9 @@ class ExprTr:
         return self.coerce(e, t, expected, node)
 
     def _expr(self, node, expected):
+        if expected is not None and expected[0] == 'Option' and expected[1] is not None \
+                and isinstance(node, (ast.List, ast.Dict, ast.ListComp, ast.DictComp)) and self.fn.raises:
+            expected = expected[1]          # a display where a value that may be None is expected
         if isinstance(node, ast.Constant):
             v = node.value
             if v is None:
@@ -818,6 +1814,9 @@ class ExprTr:
             if isinstance(node.value, ast.Name) and node.value.id == self.fn.self_name and self.env is None \
                     and node.attr in self.fn.self_attrs:
                 return self.var('self.' + node.attr, node)
+            if self.env is None and self.fn.self_name not in self.local and self.fn.state_attr(node) is not None:
+                a = self.fn.state_attr(node)
+                return 's.self.%s' % lean_field(a), self.fn.cls_state[a]
             raise Unsupported(node, 'attribute access')
         if isinstance(node, ast.Tuple):
             if expected is not None and expected[0] == 'Prod' and len(expected[1]) == len(node.elts):
@@ -826,6 +1825,11 @@ class ExprTr:
                 parts = [self.expr(e) for e in node.elts]
             if len(parts) < 2:
                 raise Unsupported(node, 'tuple of length < 2')
+            return '(' + ', '.join(p[0] for p in parts) + ')', ('Prod', tuple(p[1] for p in parts))
+        if isinstance(node, ast.List) and expected is not None and expected[0] == 'Prod' \
+                and len(expected[1]) == len(node.elts) >= 2 and self.fn.cls is not None:
+            # a fixed-length list declared as a product in the spec (`[count, delta]`)
+            parts = [self.expr(e, et) for e, et in zip(node.elts, expected[1])]
             return '(' + ', '.join(p[0] for p in parts) + ')', ('Prod', tuple(p[1] for p in parts))
         if isinstance(node, ast.List):
             et = expected[1] if expected is not None and expected[0] == 'List' else None
@@ -859,13 +1863,30 @@ class ExprTr:
             return 'decide (%s)' % self.cond(node), BOOL
         if isinstance(node, ast.BoolOp):
             # value context: only when every operand is a Bool (then `and`/`or` return Bools)
-            for v in node.values:
-                if self.expr(v)[1] != BOOL:
-                    raise Unsupported(node, '`and`/`or` used for its operand value')
+            self.no_hoist += 1
+            try:
+                for v in node.values:
+                    if self.expr(v)[1] != BOOL:
+                        raise Unsupported(node, '`and`/`or` used for its operand value')
+            finally:
+                self.no_hoist -= 1
             return 'decide (%s)' % self.cond(node), BOOL
+        if isinstance(node, (ast.ListComp, ast.DictComp, ast.GeneratorExp)):
+            return self._comprehension(node, expected)
+        if isinstance(node, ast.Dict) and not node.keys:
+            t = expected if expected is not None and expected[0] == 'Dict' else ('Dict', None, None)
+            if known(t):
+                return '([] : %s)' % show_type(t), t
+            if self.infer_only:
+                return '[]', t
+            raise Unsupported(node, 'empty dict of unknown type')
         if isinstance(node, ast.IfExp):
-            a, ta = self.expr(node.body, expected)
-            b, tb = self.expr(node.orelse, expected)
+            self.no_hoist += 1
+            try:
+                a, ta = self.expr(node.body, expected)
+                b, tb = self.expr(node.orelse, expected)
+            finally:
+                self.no_hoist -= 1
             t = unify(ta, tb, node)
             a, _ = self.coerce(a, ta, t, node)
             b, _ = self.coerce(b, tb, t, node)
@@ -873,7 +1894,26 @@ class ExprTr:
         if isinstance(node, ast.Call):
             return self._call(node, expected)
         if isinstance(node, ast.Subscript):
-            base, bt = self.expr(node.value)
+            callee = self.fn._method_call(node, {'nn': self.nn}) if self.env is None else None
+            if callee is not None:
+                return self._method_value(callee, node)
+            dv = self.fn.dict_view(node.value) if self.env is None else None
+            if dv is not None:
+                base, bt = self.view(dv, '__getitem__', node)
+            else:
+                base, bt = self.expr(node.value)
+            if bt[0] == 'Prod' and not isinstance(node.slice, ast.Slice):
+                i = self.const_index(node.slice, len(bt[1]))
+                if bt[1][i] is None:
+                    raise _Unknown()
+                return prod_proj(base, i, len(bt[1])), bt[1][i]
+            if bt[0] == 'Dict' and not isinstance(node.slice, ast.Slice):
+                kx, _ = self.expr(node.slice, bt[1])
+                if not self.fn.raises:
+                    raise Unsupported(node, 'dict item outside the raising mode')
+                if bt[2] is None:
+                    raise _Unknown()
+                return self.partial('PyRt.Dict.get? %s %s' % (base, kx), node), bt[2]
             if bt[0] not in ('List', 'Str'):
                 raise Unsupported(node, 'subscript of a non-sequence')
             if isinstance(node.slice, ast.Slice):
@@ -888,7 +1928,9 @@ class ExprTr:
             i, _ = self.expr(node.slice, INT)
             if not known(bt):
                 raise _Unknown()
-            if bt[1][0] == 'Var':
+            if self.fn.raises:
+                return self.partial('PyRt.index? %s %s' % (base, i), node), bt[1]
+            if bt[1][0] == 'Var' and bt[1][1] not in self.fn.deceq:
                 raise Unsupported(node, 'indexing a list of abstract items')
             return '(PyRt.index %s %s)' % (base, i), bt[1]
         raise Unsupported(node)
@@ -898,29 +1940,186 @@ class ExprTr:
         l, lt = self.expr(node.left)
         r, rt = self.expr(node.right)
         if lt == INT and rt == INT:
-            if isinstance(op, ast.Add):
-                return '(%s + %s)' % (l, r), INT
-            if isinstance(op, ast.Sub):
-                return '(%s - %s)' % (l, r), INT
-            if isinstance(op, ast.Mult):
-                return '(%s * %s)' % (l, r), INT
-            if isinstance(op, ast.FloorDiv):
-                return '(PyRt.floordiv %s %s)' % (l, r), INT
-            if isinstance(op, ast.Mod):
-                return '(PyRt.mod %s %s)' % (l, r), INT
-            raise Unsupported(node, 'integer operator')
+            return self.arith(op, l, r, node)
         if lt[0] == 'List' and rt[0] == 'List' and isinstance(op, ast.Add):
             return '(%s ++ %s)' % (l, r), unify(lt, rt, node)
         raise Unsupported(node, 'operator on %s, %s' % (lt, rt))
 
+    def arith(self, op, l, r, node):
+        if isinstance(op, ast.Add):
+            return '(%s + %s)' % (l, r), INT
+        if isinstance(op, ast.Sub):
+            return '(%s - %s)' % (l, r), INT
+        if isinstance(op, ast.Mult):
+            return '(%s * %s)' % (l, r), INT
+        if isinstance(op, ast.FloorDiv):
+            if self.fn.raises:
+                return self.partial('PyRt.floordiv? %s %s' % (l, r), node), INT
+            return '(PyRt.floordiv %s %s)' % (l, r), INT
+        if isinstance(op, ast.Mod):
+            if self.fn.raises:
+                return self.partial('PyRt.mod? %s %s' % (l, r), node), INT
+            return '(PyRt.mod %s %s)' % (l, r), INT
+        raise Unsupported(node, 'integer operator')
+
+    # -- comprehensions ------------------------------------------------------------------------------
+    def _comprehension(self, node, expected):
+        """[e for pat in it if c ...] / {k: v for ...} / a generator expression consumed at once:
+        `(it.filter (fun pat => c)).map (fun pat => e)`; one `for` clause; the variables are bound by the
+        lambda (a comprehension has its own scope); nothing inside may raise"""
+        if len(node.generators) != 1 or node.generators[0].is_async:
+            raise Unsupported(node, 'comprehension with several for clauses')
+        g = node.generators[0]
+        items, lt = self.consumed(g.iter)
+        if lt[0] == 'Dict':
+            items, lt = '(PyRt.Dict.keys %s)' % items, ('List', lt[1])
+        if lt[0] != 'List':
+            raise Unsupported(node, 'comprehension over a non-list')
+        if not known(lt):
+            raise _Unknown()
+        saved = dict(self.local)
+        names = []
+
+        def pat(tgt, t):
+            if isinstance(tgt, ast.Name):
+                if tgt.id in self.fn.vars or tgt.id == self.fn.self_name:
+                    raise Unsupported(node, 'comprehension variable %s shadows a variable' % tgt.id)
+                nm = self.fresh_bound()
+                self.local[tgt.id] = (nm, t)
+                names.append(tgt.id)
+                return nm
+            if isinstance(tgt, (ast.Tuple, ast.List)) and t[0] == 'Prod' and len(t[1]) == len(tgt.elts):
+                return '(' + ', '.join(pat(e, tt) for e, tt in zip(tgt.elts, t[1])) + ')'
+            raise Unsupported(node, 'comprehension target')
+        self.no_hoist += 1
+        try:
+            p = pat(g.target, lt[1])
+            if len(set(names)) != len(names):
+                raise Unsupported(node, 'comprehension binds a name twice')
+            src = items
+            for c in g.ifs:
+                src = '(%s.filter (fun %s => decide %s))' % (src, p, self.cond(c))
+            if isinstance(node, ast.DictComp):
+                et = expected if expected is not None and expected[0] == 'Dict' else ('Dict', None, None)
+                kx, kt = self.expr(node.key, et[1])
+                vx, vt = self.expr(node.value, et[2])
+                if not has_deceq(kt, self.fn.deceq):
+                    raise Unsupported(node, 'dict keys without decidable equality')
+                return '(PyRt.Dict.ofPairs (%s.map (fun %s => (%s, %s))))' % (src, p, kx, vx), ('Dict', kt, vt)
+            et = expected[1] if expected is not None and expected[0] == 'List' else None
+            e, t = self.expr(node.elt, et)
+            return '(%s.map (fun %s => %s))' % (src, p, e), ('List', t)
+        finally:
+            self.no_hoist -= 1
+            self.local = saved
+
+    def _method_value(self, callee, node):
+        """value of a call of a translated method that does not change the object state"""
+        if self.infer_only:
+            return 'r0', callee['result']
+        if callee['mutates']:
+            raise Unsupported(node, 'a state-changing method call inside an expression')
+        if callee['spec']['kind'] == 'generator' and node is not self.consume_node:
+            # a generator object is a one-shot iterator: as a list it may only be consumed on the spot
+            raise Unsupported(node, 'a generator object that is not consumed at once (sorted/list/sum/for)')
+        app = self.fn.call_app(callee, self, node)
+        if callee['raises']:
+            return self.partial(app, node), callee['result']
+        return '(%s)' % app, callee['result']
+
+    def _dict_method(self, node, base, bt, expected):
+        """reading methods of a dict value"""
+        m, a = node.func.attr, node.args
+        if m == 'items' and not a:
+            return '(PyRt.Dict.items %s)' % base, ('List', ('Prod', (bt[1], bt[2])))
+        if m == 'keys' and not a:
+            return '(PyRt.Dict.keys %s)' % base, ('List', bt[1])
+        if m == 'values' and not a:
+            return '(PyRt.Dict.values %s)' % base, ('List', bt[2])
+        if m == 'get' and len(a) == 2:
+            kx, _ = self.expr(a[0], bt[1])
+            dx, _ = self.expr(a[1], bt[2])
+            return '(PyRt.Dict.getD %s %s %s)' % (base, kx, dx), bt[2]
+        if m == '__len__' and not a:
+            return '(PyRt.Dict.len %s)' % base, INT
+        raise Unsupported(node, 'dict method %s' % m)
+
     def _call(self, node: ast.Call, expected):
         fn = self.fn
+        if self.env is None and fn.cls is not None and fn._raw_dict(node) is not None:
+            m, attr, _ = fn._raw_dict(node)
+            t = fn.cls_state[attr]
+            if not self.infer_only:
+                raise Unsupported(node, 'dict.%s(...) of the object inside an expression' % m)
+            if m == 'pop':
+                return 'r0', t[2]
+            if m == 'popitem':
+                return 'r0', ('Prod', (t[1], t[2]))
+            return 'r0', UNIT
+        if isinstance(node.func, ast.Attribute) and self.env is None:
+            callee = fn._method_call(node, {'nn': self.nn})
+            if callee is not None:
+                return self._method_value(callee, node)
+            if not node.keywords and not (isinstance(node.func.value, ast.Name)
+                                          and node.func.value.id == fn.self_name):
+                base, bt = self.expr(node.func.value)
+                if bt[0] == 'Dict':
+                    if not known(bt):
+                        raise _Unknown()
+                    return self._dict_method(node, base, bt, expected)
+        if isinstance(node.func, ast.Name) and node.func.id == 'sorted' and len(node.args) == 1 \
+                and (fn.cls is not None or fn.raises):
+            return self._sorted(node, expected)
         if node.keywords:
             raise Unsupported(node, 'keyword arguments')
+        if isinstance(node.func, ast.Name) and (fn.cls is not None or fn.raises):
+            f, a = node.func.id, node.args
+            if f == 'sum' and len(a) == 1:
+                e, t = self.consumed(a[0])
+                if t == ('List', INT):
+                    return '(PyRt.sum %s)' % e, INT
+                if t[0] == 'Prod' and all(x == INT for x in t[1]):      # a fixed-length list of ints
+                    n = len(t[1])
+                    return '(' + ' + '.join(['(0 : Int)'] + [prod_proj(e, i, n) for i in range(n)]) + ')', INT
+                raise Unsupported(node, 'sum of %s' % (t,))
+            if f == 'len' and len(a) == 1 and not (isinstance(a[0], ast.Name) and a[0].id == fn.self_name):
+                e, t = self.expr(a[0])
+                if t[0] == 'Dict':
+                    return '(PyRt.Dict.len %s)' % e, INT
+                if t[0] == 'Set':
+                    return '(PyRt.Set.len %s)' % e, INT
+            if f in ('set', 'frozenset') and len(a) == 0:
+                t = expected if expected is not None and expected[0] == 'Set' else ('Set', None)
+                if known(t):
+                    return '(PyRt.Set.empty : %s)' % show_type(t), t
+                if self.infer_only:
+                    return 'PyRt.Set.empty', t
+                raise Unsupported(node, 'empty set of unknown element type')
+            if f in ('set', 'frozenset') and len(a) == 1:
+                e, t = self.expr(a[0])
+                if t[0] == 'Set':
+                    return e, t             # a copy: the same value
+                if t[0] == 'List' and known(t) and has_deceq(t[1], fn.deceq):
+                    return '(PyRt.Set.ofList %s)' % e, ('Set', t[1])
+                raise Unsupported(node, '%s() of %s' % (f, t))
+            if f == 'list' and len(a) == 1:
+                e, t = self.expr(a[0])
+                if t[0] == 'Dict':
+                    return '(PyRt.Dict.keys %s)' % e, ('List', t[1])
+        if isinstance(node.func, ast.Name) and node.func.id == 'enumerate' and 1 <= len(node.args) <= 2:
+            e, t = self.expr(node.args[0])
+            if t[0] != 'List':
+                raise Unsupported(node, 'enumerate of a non-list')
+            st = self.expr(node.args[1], INT)[0] if len(node.args) == 2 else '(0 : Int)'
+            return '(PyRt.enumerate %s %s)' % (e, st), ('List', ('Prod', (INT, t[1])))
         if isinstance(node.func, ast.Name):
             f = node.func.id
             a = node.args
             if f == 'len' and len(a) == 1:
+                if isinstance(a[0], ast.Name) and a[0].id == fn.self_name and self.env is None \
+                        and fn.dict_view(a[0]) is not None:
+                    d, dt = self.view(fn.dict_view(a[0]), '__len__', node)
+                    return '(PyRt.Dict.len %s)' % d, INT
                 if isinstance(a[0], ast.Name) and a[0].id == fn.self_name and self.env is None:
                     if not fn.self_len:
                         raise Unsupported(node, 'len(self) not declared in the spec')
@@ -941,7 +2140,7 @@ class ExprTr:
                     return '(PyRt.ofBool %s)' % e, INT
                 raise Unsupported(node, 'int() of %s' % (t,))
             if f in ('list', 'tuple') and len(a) == 1:
-                e, t = self.expr(a[0], expected if expected and expected[0] == 'List' else None)
+                e, t = self.consumed(a[0], expected if expected and expected[0] == 'List' else None)
                 if t[0] != 'List':
                     raise Unsupported(node, '%s() of a non-list' % f)
                 return e, t
@@ -950,17 +2149,73 @@ class ExprTr:
         raise Unsupported(node, 'call')
 
     # conditions (Lean Prop, decidable) ------------------------------------------------------------
+    def _sorted(self, node, expected):
+        """sorted(l[, key=lambda x: <int expr>][, reverse=<bool constant>]) -> PyRt.sorted (stable)"""
+        e, t = self.consumed(node.args[0], expected if expected and expected[0] == 'List' else None)
+        if t[0] != 'List' or not known(t):
+            if t[0] == 'List':
+                raise _Unknown()
+            raise Unsupported(node, 'sorted of a non-list')
+        key, rev = None, 'false'
+        for kw in node.keywords:
+            if kw.arg == 'key' and isinstance(kw.value, ast.Lambda):
+                key = kw.value
+            elif kw.arg == 'reverse' and isinstance(kw.value, ast.Constant) and isinstance(kw.value.value, bool):
+                rev = 'true' if kw.value.value else 'false'
+            else:
+                raise Unsupported(node, 'sorted keyword %s' % kw.arg)
+        if key is None:
+            if t[1] != INT:
+                raise Unsupported(node, 'sorted without key= on non-integers')
+            return '(PyRt.sorted (fun c => c) %s %s)' % (rev, e), t
+        la = key.args
+        if la.vararg or la.kwarg or la.kwonlyargs or la.defaults or len(la.args) != 1:
+            raise Unsupported(node, 'key function')
+        saved = dict(self.local)
+        nm = self.fresh_bound()
+        if la.args[0].arg in self.fn.vars:
+            raise Unsupported(node, 'lambda parameter shadows a variable')
+        self.local[la.args[0].arg] = (nm, t[1])
+        self.no_hoist += 1
+        try:
+            body, _ = self.expr(key.body, INT)
+        finally:
+            self.no_hoist -= 1
+            self.local = saved
+        return '(PyRt.sorted (fun %s => %s) %s %s)' % (nm, body, rev, e), t
+
     def cond(self, node) -> str:
         if isinstance(node, ast.BoolOp):
             sep = ' ∧ ' if isinstance(node.op, ast.And) else ' ∨ '
-            return '(' + sep.join(self.cond(v) for v in node.values) + ')'
+            parts = []
+            saved = self.nn
+            try:
+                for i, v in enumerate(node.values):
+                    if i:
+                        self.no_hoist += 1
+                    try:
+                        parts.append(self.cond(v))
+                    finally:
+                        if i:
+                            self.no_hoist -= 1
+                    t_, f_ = narrow(v)      # the later operands are evaluated only if this one was true / false
+                    self.nn = self.nn | (t_ if isinstance(node.op, ast.And) else f_)
+            finally:
+                self.nn = saved
+            return '(' + sep.join(parts) + ')'
         if isinstance(node, ast.UnaryOp) and isinstance(node.op, ast.Not):
             return '(¬ %s)' % self.cond(node.operand)
         if isinstance(node, ast.Compare):
             parts = []
             left = node.left
-            for op, right in zip(node.ops, node.comparators):
-                parts.append(self._compare(left, op, right, node))
+            for i, (op, right) in enumerate(zip(node.ops, node.comparators)):
+                if i:
+                    self.no_hoist += 1          # a < b < c: the second comparison only if the first holds
+                try:
+                    parts.append(self._compare(left, op, right, node))
+                finally:
+                    if i:
+                        self.no_hoist -= 1
                 left = right
             return parts[0] if len(parts) == 1 else '(' + ' ∧ '.join(parts) + ')'
         if isinstance(node, ast.Constant) and isinstance(node.value, bool):
@@ -973,8 +2228,10 @@ class ExprTr:
             return '(%s = true)' % e
         if t == INT:
             return '(%s ≠ 0)' % e
-        if t[0] in ('List', 'Str'):
+        if t[0] in ('List', 'Str', 'Dict'):
             return '(%s ≠ [])' % e
+        if t[0] == 'Set':
+            return '(PyRt.Set.isEmpty %s = false)' % e
         if t[0] == 'Option' and known(t) and t[1][0] not in ('Int', 'Bool', 'List', 'Str', 'Option'):
             return '(%s ≠ none)' % e
         raise Unsupported(node, 'truth value of %s' % (t,))
@@ -988,19 +2245,42 @@ class ExprTr:
                 eqs = []
                 for e in right.elts:
                     r, rt = self.expr(e, lt)
-                    if not has_deceq(unify(lt, rt, node)):
+                    if not has_deceq(unify(lt, rt, node), self.fn.deceq):
                         raise Unsupported(node, 'equality on %s' % (lt,))
                     eqs.append('%s = %s' % (l, r))
                 p = '(' + ' ∨ '.join(eqs) + ')'
             else:
-                r, rt = self.expr(right)
-                if rt[0] != 'List' or not has_deceq(unify(lt, rt[1], node)):
+                callee = self.fn.callee('__contains__', [left], [], node, self.nn) \
+                    if (self.fn.cls is not None and isinstance(right, ast.Name) and right.id == self.fn.self_name
+                        and self.env is None) else None
+                if callee is not None:
+                    v, vt = self._method_value(callee, node)
+                    if vt != BOOL:
+                        raise Unsupported(node, '__contains__ must return a Bool')
+                    p = '(%s = true)' % v
+                    return p if isinstance(op, ast.In) else '(¬ %s)' % p
+                dv = self.fn.dict_view(right) if self.env is None else None
+                if dv is not None:
+                    r, rt = self.view(dv, '__contains__', node)
+                else:
+                    r, rt = self.expr(right)
+                if rt[0] == 'Dict' and has_deceq(unify(lt, rt[1], node), self.fn.deceq):
+                    p = '(PyRt.Dict.contains %s %s = true)' % (r, l)
+                    return p if isinstance(op, ast.In) else '(¬ %s)' % p
+                if rt[0] == 'Set' and has_deceq(unify(lt, rt[1], node), self.fn.deceq):
+                    p = '(PyRt.Set.contains %s %s = true)' % (r, l)
+                    return p if isinstance(op, ast.In) else '(¬ %s)' % p
+                if rt[0] != 'List' or not has_deceq(unify(lt, rt[1], node), self.fn.deceq):
                     raise Unsupported(node, 'membership in %s' % (rt,))
                 p = '(PyRt.contains %s %s = true)' % (r, l)
             return p if isinstance(op, ast.In) else '(¬ %s)' % p
         if isinstance(op, (ast.Is, ast.IsNot)):
             if isinstance(right, ast.Constant) and right.value is None:
-                l, lt = self.expr(left)
+                saved, self.nn = self.nn, frozenset()       # the test itself reads the Option
+                try:
+                    l, lt = self.expr(left)
+                finally:
+                    self.nn = saved
                 if lt[0] != 'Option':
                     raise Unsupported(node, '`is None` on a value that is never None')
                 return '(%s %s none)' % (l, '=' if isinstance(op, ast.Is) else '≠')
@@ -1011,7 +2291,7 @@ class ExprTr:
             l, lt = self.expr(left, rt)
         if isinstance(op, (ast.Eq, ast.NotEq)):
             t = unify(lt, rt, node)
-            if lt != rt or not has_deceq(t):
+            if lt != rt or not has_deceq(t, self.fn.deceq):
                 raise Unsupported(node, 'equality between %s and %s' % (lt, rt))
             return '(%s %s %s)' % (l, '=' if isinstance(op, ast.Eq) else '≠', r)
         if lt != INT or rt != INT:
@@ -1057,22 +2337,48 @@ def translate_module(module_name: str, specs: list, repo: str):
     return translate_source(src, specs, module_name, os.path.relpath(path, os.path.abspath(repo)))
 
 
+def class_state_text(cls) -> str:
+    """the record of the object state of a class: the attributes the spec declares"""
+    tp = cls.get('tparams', [])
+    out = ['/-- object state of `%s` (the attributes declared in the spec) -/' % cls['name'],
+           'structure %s.St %swhere' % (cls['lean_name'], ('(%s : Type) ' % ' '.join(tp)) if tp else '')]
+    for a, t in cls['state'].items():
+        f = lean_field(a)
+        out.append('  %s : %s%s' % (f, show_type(parse_type(t)), '' if f == a else '    -- ' + a))
+    if cls.get('peer'):
+        # `self.<peer attr>` is an object of the same class whose state is this record seen from the other side
+        tps = ''.join(' ' + p for p in tp)
+        out.append('')
+        out.append('/-- the state of `self.%s` (same class, same two dicts, roles exchanged) -/' % cls['peer']['attr'])
+        out.append('def %s.St.swap %s(st : %s.St%s) : %s.St%s :=\n  { %s }' % (
+            cls['lean_name'], ('{%s : Type} ' % ' '.join(tp)) if tp else '', cls['lean_name'], tps,
+            cls['lean_name'], tps,
+            ', '.join('%s := st.%s' % (lean_field(a), lean_field(b)) for a, b in cls['peer']['swap'].items())))
+    return '\n'.join(out) + '\n'
+
+
 def translate_source(src: str, specs: list, module_name: str, rel: str):
     """translate the functions named by `specs` out of the module source text `src`"""
     tree = ast.parse(src)
     module_defs = {n.name: n for n in tree.body if isinstance(n, ast.FunctionDef)}
     short = module_name.split('.')[-1]
     parts, infos, head = [], [], []
+    emitted, classes = set(), []
     for spec in specs:
         info = {'function': '%s.%s' % (module_name, spec['qualname']), 'source_file': rel, 'lines': None,
                 'lean_def': 'Src.%s.%s' % (short, spec['lean_name']),
-                'lean_pre': 'Src.%s.%s_pre' % (short, spec['lean_name']),
+                'lean_pre': None if spec.get('cls') else 'Src.%s.%s_pre' % (short, spec['lean_name']),
                 'tie_theorem': spec['tie_theorem']}
         infos.append(info)
         try:
             fdef = _find_function(tree, spec['qualname'])
             info['lines'] = '%d-%d' % (fdef.lineno, fdef.end_lineno)
-            text = FnTranslator(fdef, spec, module_defs).emit()
+            text = FnTranslator(fdef, spec, module_defs, tree, emitted).emit()
+            emitted.add(spec['lean_name'])
+            cls = spec.get('cls')
+            if cls is not None and cls['lean_name'] not in classes:
+                classes.append(cls['lean_name'])
+                text = class_state_text(cls) + '\n' + text
         except (Unsupported, _Unknown, RecursionError) as e:
             # outside the subset: no definition is emitted, so the tie theorem of this function stops
             # checking (and is named by the audit); the other functions of the module are unaffected
